@@ -1,21 +1,38 @@
-//! C10: multitree columns. Histories of InsertTree / ReferenceTree / DereferenceTree on a real
-//! `Db` (variants append_only, ref-counted roots, plain), interleaved with pipeline stage steps
-//! and reopen; one protocol line per operation for the Lean model (`c10 ...`, logical paths
-//! instead of addresses) and an independent oracle: a logical forest with explicit multiset
-//! reference counting (plain Rust, not derived from the model).
+//! C10: multitree columns. Histories of TRANSACTIONS of InsertTree / ReferenceTree / DereferenceTree
+//! (one or several operations, same or different roots, one or several multitree columns of the
+//! variants append_only / ref-counted roots / plain, optionally a plain key-value column in the
+//! same transaction, with and without value compression) on a real `Db`, interleaved with pipeline
+//! stage steps, ref-count table reindexing and reopen; one protocol line per call for the Lean
+//! model (`c10 ...`, logical paths instead of addresses) and an independent oracle: one logical
+//! forest per column with explicit multiset reference counting (plain Rust, not derived from the
+//! model).
+//!
+//! Oracle reading of a transaction (the property's, not the implementation's planning order): the
+//! operations take effect in the order given, except that the ReferenceTrees of a transaction are
+//! counted before its DereferenceTrees (net count: `[Deref k, Ref k]` on a root with count 1 keeps
+//! the tree; admissible, see Pdb/Props/C10.lean).  A transaction is rejected as a whole iff one
+//! operation is invalid for its column or names a root that is not readable when the call is made.
+//! Generated transactions name every root key at most once per transaction (the conflicting forms
+//! are the scenarios at the end of a case: `[DereferenceTree k, InsertTree k]` is finding F41).
 //!
 //! T2 (C14 "node reference counts equal the number of referencing parents"): whenever the handle is
 //! quiescent (after an `enact` that leaves nothing queued or logged, after every reopen, at drain
 //! points drawn from a separate random stream, after the final drain and the final reopen) the
-//! node forest is dumped through the hook `Db::verif_multitree_dump` (live slots, children decoded
-//! by the crate, roots, ref-count tables and cache) and sent as one op line `t2rc ...` to the Lean
-//! dump checker (Pdb/Model/DumpCheckRc.lean, expected answer `ok`); the same dump is compared with
-//! the forest oracle (`dump_matches_forest`: same roots, addresses, children, counts).  c02x.rs uses
-//! the same functions after every crash recovery, with the slots predicted to leak (finding F19)
-//! as the checker's allowed orphans.
+//! node forest of every tree column is dumped through the hook `Db::verif_multitree_dump` (live
+//! slots, children decoded by the crate, roots, ref-count tables and cache) and sent as one op line
+//! `t2rc ...` to the Lean dump checker (Pdb/Model/DumpCheckRc.lean, expected answer `ok`); the same
+//! dump is compared with the forest oracle (`dump_matches_forest`: same roots, addresses, children,
+//! counts).  c02x.rs uses the same functions after every crash recovery, with the slots predicted
+//! to leak (finding F19) as the checker's allowed orphans.
+//!
+//! Ref-count table growth: `mass` cases lower the initial size of the ref-count table through the
+//! hook `parity_db::verif::set_min_ref_count_bits` (2..16 chunks of 32 entries instead of 65536
+//! chunks) so that mass sharing fills chunks, `trigger_ref_count_reindex` queues the table and the
+//! `table.id != current` branches, `write_ref_count_reindex_plan` and `drop_ref_count` run
+//! (`c10 reindex` steps); the dumps then hold several tables (counter `t2rc.with_queued_rc_table`).
 use crate::util::*;
 use parity_db::{ColumnOptions, CompressionType, Db, NewNode, NodeRef, Operation, Options};
-use std::collections::{BTreeMap, HashMap};
+use std::collections::{BTreeMap, HashMap, VecDeque};
 use std::path::{Path, PathBuf};
 
 #[derive(Clone, Copy, PartialEq, Eq, Debug)]
@@ -35,18 +52,74 @@ impl Variant {
 	}
 }
 
-fn options(v: Variant, path: &Path, salt: [u8; 32]) -> Options {
-	let mut o = Options::with_columns(path, 1);
-	o.columns[0] = ColumnOptions {
-		preimage: v == Variant::Rc,
-		uniform: false,
-		ref_counted: v == Variant::Rc,
-		compression: CompressionType::NoCompression,
-		btree_index: false,
-		multitree: true,
-		append_only: v == Variant::AppendOnly,
-		allow_direct_node_access: v != Variant::AppendOnly,
-	};
+#[derive(Clone, Copy, PartialEq, Eq, Debug)]
+enum ColKind {
+	Tree(Variant),
+	Kv,
+}
+
+impl ColKind {
+	fn name(self) -> &'static str {
+		match self {
+			ColKind::Tree(v) => v.name(),
+			ColKind::Kv => "kv",
+		}
+	}
+	fn variant(self) -> Option<Variant> {
+		match self {
+			ColKind::Tree(v) => Some(v),
+			ColKind::Kv => None,
+		}
+	}
+}
+
+#[derive(Clone)]
+struct Cfg {
+	cols: Vec<ColKind>,
+	compression: CompressionType,
+	threshold: Option<u32>,
+	/// index bits of a new ref-count table (hook; 0 = the production value 16)
+	rcbits: u8,
+}
+
+fn compression_name(c: CompressionType) -> &'static str {
+	match c {
+		CompressionType::NoCompression => "none",
+		CompressionType::Lz4 => "lz4",
+		CompressionType::Snappy => "snappy",
+	}
+}
+
+fn options(cfg: &Cfg, path: &Path, salt: [u8; 32]) -> Options {
+	let mut o = Options::with_columns(path, cfg.cols.len() as u8);
+	for (i, c) in cfg.cols.iter().enumerate() {
+		o.columns[i] = match c {
+			ColKind::Tree(v) => ColumnOptions {
+				preimage: *v == Variant::Rc,
+				uniform: false,
+				ref_counted: *v == Variant::Rc,
+				// `ColumnOptions::is_valid` refuses multitree + compression (Db::open asserts it)
+				compression: CompressionType::NoCompression,
+				btree_index: false,
+				multitree: true,
+				append_only: *v == Variant::AppendOnly,
+				allow_direct_node_access: *v != Variant::AppendOnly,
+			},
+			ColKind::Kv => ColumnOptions {
+				preimage: false,
+				uniform: false,
+				ref_counted: false,
+				compression: cfg.compression,
+				btree_index: false,
+				multitree: false,
+				append_only: false,
+				allow_direct_node_access: false,
+			},
+		};
+		if let Some(t) = cfg.threshold {
+			o.compression_threshold.insert(i as u8, t);
+		}
+	}
 	o.salt = Some(salt);
 	o.with_background_thread = false;
 	o.always_flush = true;
@@ -59,7 +132,7 @@ fn options(v: Variant, path: &Path, salt: [u8; 32]) -> Options {
 /// The real database plus the stage mirror needed to drive the stepping API safely
 /// (same discipline as p1::Sut).
 struct Sut {
-	v: Variant,
+	cfg: Cfg,
 	salt: [u8; 32],
 	dir: PathBuf,
 	db: Option<Db>,
@@ -71,9 +144,10 @@ struct Sut {
 }
 
 impl Sut {
-	fn create(v: Variant, salt: [u8; 32], dir: PathBuf) -> Sut {
-		let db = Db::open_or_create(&options(v, &dir, salt)).expect("create");
-		Sut { v, salt, dir, db: Some(db), queued: 0, logged: 0, flushed: 0, unread_files: 0, dirty: 0 }
+	fn create(cfg: Cfg, salt: [u8; 32], dir: PathBuf) -> Sut {
+		parity_db::verif::set_min_ref_count_bits(cfg.rcbits);
+		let db = Db::open_or_create(&options(&cfg, &dir, salt)).expect("create");
+		Sut { cfg, salt, dir, db: Some(db), queued: 0, logged: 0, flushed: 0, unread_files: 0, dirty: 0 }
 	}
 	fn db(&self) -> &Db {
 		self.db.as_ref().unwrap()
@@ -85,6 +159,21 @@ impl Sut {
 			self.logged += 1;
 		}
 		Ok(())
+	}
+	/// a ref-count (or index) table is queued for reindexing in some column
+	fn reindex_pending(&self) -> bool {
+		// `<v>/h,<index bits>,<rc bits>,<queue>/...`
+		self.db().verif_table_cfg().split('/').skip(1).any(|c| c.split(',').nth(3).map_or(false, |q| !q.is_empty()))
+	}
+	/// one `process_reindex` call; returns true if it wrote a record
+	fn reindex(&mut self) -> Result<bool, parity_db::Error> {
+		let (next, last) = self.db().verif_reindex_state();
+		let planned = next != 0 && next <= last && self.reindex_pending();
+		self.db().process_reindex()?;
+		if planned {
+			self.logged += 1;
+		}
+		Ok(planned)
 	}
 	fn flush(&mut self) -> Result<(), parity_db::Error> {
 		self.db().flush_logs()?;
@@ -142,7 +231,8 @@ impl Sut {
 	}
 	fn reopen(&mut self) -> Result<(), parity_db::Error> {
 		self.close();
-		self.db = Some(Db::open(&options(self.v, &self.dir, self.salt))?);
+		parity_db::verif::set_min_ref_count_bits(self.cfg.rcbits);
+		self.db = Some(Db::open(&options(&self.cfg, &self.dir, self.salt))?);
 		Ok(())
 	}
 }
@@ -167,7 +257,7 @@ pub(crate) struct ORoot {
 	pub(crate) count: u64,
 }
 
-#[derive(Default)]
+#[derive(Default, Clone)]
 pub(crate) struct Forest {
 	pub(crate) nodes: HashMap<usize, ONode>,
 	pub(crate) roots: BTreeMap<Vec<u8>, ORoot>,
@@ -495,16 +585,17 @@ type Tr<'a> = &'a (dyn parity_db::TreeReader + Send + Sync);
 /// direct-access API; both must agree.
 struct Reader<'a> {
 	db: &'a Db,
+	col: u8,
 	tr: Option<Tr<'a>>,
 }
 
-fn with_reader<R>(db: &Db, key: &[u8], f: impl FnOnce(&Reader) -> R) -> Result<R, String> {
-	match db.get_tree(0, key) {
+fn with_reader<R>(db: &Db, col: u8, key: &[u8], f: impl FnOnce(&Reader) -> R) -> Result<R, String> {
+	match db.get_tree(col, key) {
 		Err(e) => Err(format!("get_tree: {:?}", e)),
-		Ok(None) => Ok(f(&Reader { db, tr: None })),
+		Ok(None) => Ok(f(&Reader { db, col, tr: None })),
 		Ok(Some(tree)) => {
 			let g = tree.read();
-			let r = f(&Reader { db, tr: Some(&**g) });
+			let r = f(&Reader { db, col, tr: Some(&**g) });
 			drop(g);
 			Ok(r)
 		},
@@ -520,7 +611,7 @@ impl<'a> Reader<'a> {
 				Err(e) => return Err(format!("TreeReader::get_root: {:?}", e)),
 			},
 		};
-		match self.db.get_root(0, key) {
+		match self.db.get_root(self.col, key) {
 			Ok(r) =>
 				if r != via_reader {
 					return Err(format!("get_root differs from TreeReader::get_root for key {}", hex(key)))
@@ -539,14 +630,14 @@ impl<'a> Reader<'a> {
 		if via_reader.as_ref().map(|x| &x.1) != c.as_ref() {
 			return Err(format!("get_node_children differs from get_node at {}", addr))
 		}
-		match self.db.get_node(0, addr) {
+		match self.db.get_node(self.col, addr) {
 			Ok(r) =>
 				if r != via_reader {
 					return Err(format!("get_node differs from TreeReader::get_node at {}", addr))
 				},
 			Err(e) => return Err(format!("get_node: {:?}", e)),
 		}
-		match self.db.get_node_children(0, addr) {
+		match self.db.get_node_children(self.col, addr) {
 			Ok(r) =>
 				if r.as_ref() != via_reader.as_ref().map(|x| &x.1) {
 					return Err(format!("get_node_children differs at {}", addr))
@@ -650,12 +741,28 @@ fn fan_class(f: usize) -> &'static str {
 
 struct Case<'a> {
 	sut: Sut,
-	forest: Forest,
+	/// one logical forest per column (empty and unused for the key-value column)
+	forests: Vec<Forest>,
+	/// the key-value column: plain map of what the accepted commits produce
+	kv: BTreeMap<Vec<u8>, String>,
 	vals: Values,
 	t: &'a mut Trace,
 	ctr: &'a mut Counters,
 	prop: &'a str,
 	ok: bool,
+	/// per queued commit: the roots its DereferenceTrees remove (still readable until processed)
+	pending_dead: VecDeque<Vec<(usize, Vec<u8>)>>,
+	/// reads of big trees so far (every fourth one is a full rendering)
+	big_reads: usize,
+}
+
+/// model token of a root key / path prefix: column 0 is the default column of the protocol
+fn kname(ci: usize, key: &[u8]) -> String {
+	if ci == 0 {
+		hex(key)
+	} else {
+		format!("{}:{}", ci, hex(key))
+	}
 }
 
 impl<'a> Case<'a> {
@@ -664,11 +771,27 @@ impl<'a> Case<'a> {
 		self.ok = false;
 	}
 
-	/// `c10 tree <key>`: observed rendering, oracle comparison, model line.
-	fn check_tree(&mut self, key: &[u8]) {
-		let r = with_reader(self.sut.db(), key, |rd| rd.render(key, &self.vals)).and_then(|x| x);
-		self.ctr.inc("op.tree");
-		self.ctr.inc(if self.sut.queued > 0 {
+	fn variant(&self, ci: usize) -> Variant {
+		self.sut.cfg.cols[ci].variant().expect("tree column")
+	}
+
+	fn tree_cols(&self) -> Vec<usize> {
+		(0..self.sut.cfg.cols.len()).filter(|i| self.sut.cfg.cols[*i].variant().is_some()).collect()
+	}
+
+	/// the root is readable when a commit call is made: live, or dead with the removing commit
+	/// still queued
+	fn visible(&self, ci: usize, key: &[u8]) -> bool {
+		self.forests[ci].roots.contains_key(key) ||
+			self.pending_dead.iter().any(|v| v.iter().any(|(c, k)| *c == ci && k.as_slice() == key))
+	}
+
+	fn note_processed(&mut self) {
+		self.pending_dead.pop_front();
+	}
+
+	fn stage_ctr(&mut self) {
+		let s = if self.sut.queued > 0 {
 			"read.stage.queued"
 		} else if self.sut.logged > self.sut.flushed {
 			"read.stage.logged"
@@ -676,59 +799,78 @@ impl<'a> Case<'a> {
 			"read.stage.flushed"
 		} else {
 			"read.stage.tables"
-		});
+		};
+		self.ctr.inc(s);
+	}
+
+	/// `c10 tree <key>`: observed rendering, oracle comparison, model line.  Trees of several hundred
+	/// nodes (mass sharing) are rendered in full every fourth time only, otherwise their root is read.
+	fn check_tree(&mut self, ci: usize, key: &[u8]) {
+		if let Some(r) = self.forests[ci].roots.get(key) {
+			let size: usize = r.children.iter().map(|c| self.forests[ci].nodes[c].expanded).sum();
+			if size > 300 {
+				self.big_reads += 1;
+				if self.big_reads % 4 != 0 {
+					self.check_root(ci, key);
+					return
+				}
+			}
+		}
+		let r = with_reader(self.sut.db(), ci as u8, key, |rd| rd.render(key, &self.vals)).and_then(|x| x);
+		self.ctr.inc("op.tree");
+		self.stage_ctr();
 		match r {
 			Err(e) => {
-				self.t.op(&format!("c10 tree {}", hex(key)), &format!("read-error {}", e));
-				self.fail(&format!("reading tree {} failed: {}", hex(key), e));
+				self.t.op(&format!("c10 tree {}", kname(ci, key)), &format!("read-error {}", e));
+				self.fail(&format!("reading tree {} failed: {}", kname(ci, key), e));
 			},
 			Ok(obs) => {
-				self.t.op(&format!("c10 tree {}", hex(key)), &obs);
-				let exp = self.forest.render(key);
-				if self.forest.roots.contains_key(key) {
+				self.t.op(&format!("c10 tree {}", kname(ci, key)), &obs);
+				let exp = self.forests[ci].render(key);
+				if self.forests[ci].roots.contains_key(key) {
 					if obs != exp {
 						let (a, b) = (clip(&exp), clip(&obs));
-						self.fail(&format!("live tree {} reads back differently: expected {} observed {}", hex(key), a, b));
+						self.fail(&format!("live tree {} reads back differently: expected {} observed {}", kname(ci, key), a, b));
 					}
 				} else if self.sut.queued == 0 && obs != "none" {
-					self.fail(&format!("tree {} has no reference left and nothing is queued, but is still readable: {}", hex(key), clip(&obs)));
+					self.fail(&format!("tree {} has no reference left and nothing is queued, but is still readable: {}", kname(ci, key), clip(&obs)));
 				}
 			},
 		}
 	}
 
-	fn check_root(&mut self, key: &[u8]) {
-		let r = with_reader(self.sut.db(), key, |rd| rd.root(key)).and_then(|x| x);
+	fn check_root(&mut self, ci: usize, key: &[u8]) {
+		let r = with_reader(self.sut.db(), ci as u8, key, |rd| rd.root(key)).and_then(|x| x);
 		self.ctr.inc("op.root");
 		let obs = match r {
 			Err(e) => format!("read-error {}", e),
 			Ok(None) => "none".to_string(),
 			Ok(Some((d, cs))) => format!("some {} {}", self.vals.render(&d), cs.len()),
 		};
-		self.t.op(&format!("c10 root {}", hex(key)), &obs);
-		if let Some(r) = self.forest.roots.get(key) {
+		self.t.op(&format!("c10 root {}", kname(ci, key)), &obs);
+		if let Some(r) = self.forests[ci].roots.get(key) {
 			let exp = format!("some {} {}", r.data, r.children.len());
 			if obs != exp {
-				self.fail(&format!("root {}: expected {} observed {}", hex(key), exp, obs));
+				self.fail(&format!("root {}: expected {} observed {}", kname(ci, key), exp, obs));
 			}
 		}
 	}
 
 	/// `c10 node <path>` for a random live node: by address on the implementation.
-	fn check_node(&mut self, id: usize, path: &(Vec<u8>, Vec<usize>)) {
-		let n = self.forest.nodes[&id].clone();
+	fn check_node(&mut self, ci: usize, id: usize, path: &(Vec<u8>, Vec<usize>)) {
+		let n = self.forests[ci].nodes[&id].clone();
 		let addr = match n.addr {
 			Some(a) => a,
 			None => return,
 		};
-		let r = with_reader(self.sut.db(), &path.0, |rd| rd.node(addr)).and_then(|x| x);
+		let r = with_reader(self.sut.db(), ci as u8, &path.0, |rd| rd.node(addr)).and_then(|x| x);
 		self.ctr.inc("op.node");
 		let obs = match r {
 			Err(e) => format!("read-error {}", e),
 			Ok(None) => "none".to_string(),
 			Ok(Some((d, cs))) => format!("some {} {}", self.vals.render(&d), cs.len()),
 		};
-		let mut p = hex(&path.0);
+		let mut p = kname(ci, &path.0);
 		for i in &path.1 {
 			p.push_str(&format!("/{}", i));
 		}
@@ -739,37 +881,64 @@ impl<'a> Case<'a> {
 		}
 	}
 
-	fn oracle_has_multipart(&self) -> bool {
-		self.forest.nodes.values().any(|n| is_multipart(self.sut.v, false, &n.data, n.children.len())) ||
-			self.forest.roots.values().any(|r| is_multipart(self.sut.v, true, &r.data, r.children.len()))
+	fn oracle_has_multipart(&self, ci: usize) -> bool {
+		let v = self.variant(ci);
+		self.forests[ci].nodes.values().any(|n| is_multipart(v, false, &n.data, n.children.len())) ||
+			self.forests[ci].roots.values().any(|r| is_multipart(v, true, &r.data, r.children.len()))
 	}
 
-	/// `c10 count`
-	fn check_count(&mut self) {
-		let r = self.sut.db().get_num_column_value_entries(0);
+	/// `c10 count [<col>]`
+	fn check_count(&mut self, ci: usize) {
+		let r = self.sut.db().get_num_column_value_entries(ci as u8);
 		self.ctr.inc("op.count");
 		let obs = match &r {
 			Ok(n) => n.to_string(),
 			Err(e) => format!("err:{}", err_kind(e)),
 		};
-		self.t.op("c10 count", &obs);
+		let line = if ci == 0 { "c10 count".to_string() } else { format!("c10 count {}", ci) };
+		self.t.op(&line, &obs);
 		if self.sut.queued == 0 {
 			// every commit has reached the tables: entries = distinct live nodes + live roots
-			let exp = (self.forest.nodes.len() + self.forest.roots.len()) as u64;
+			let exp = (self.forests[ci].nodes.len() + self.forests[ci].roots.len()) as u64;
 			match r {
 				Ok(n) =>
 					if n != exp {
-						self.fail(&format!("entry count {} but the forest has {} live nodes + {} live roots", n, self.forest.nodes.len(), self.forest.roots.len()));
+						self.fail(&format!(
+							"column {}: entry count {} but the forest has {} live nodes + {} live roots",
+							ci,
+							n,
+							self.forests[ci].nodes.len(),
+							self.forests[ci].roots.len()
+						));
 					} else {
 						self.ctr.inc("obs.count_checked_drained");
 					},
 				Err(_) =>
-					if !self.oracle_has_multipart() {
-						self.fail(&format!("entry count failed ({}) although no multipart entry is live", obs));
+					if !self.oracle_has_multipart(ci) {
+						self.fail(&format!("column {}: entry count failed ({}) although no multipart entry is live", ci, obs));
 					} else {
 						self.ctr.inc("obs.count_unavailable_multipart");
 					},
 			}
+		}
+	}
+
+	/// `c10 get <col>:<key>` on the key-value column
+	fn check_kv(&mut self, ci: usize, key: &[u8]) {
+		let r = self.sut.db().get(ci as u8, key);
+		let obs = match &r {
+			Ok(Some(v)) => format!("some {}", self.vals.render(v)),
+			Ok(None) => "none".to_string(),
+			Err(e) => format!("err:{}", err_kind(e)),
+		};
+		self.ctr.inc("op.kvget");
+		self.t.op(&format!("c10 get {}:{}", ci, hex(key)), &obs);
+		let exp = match self.kv.get(key) {
+			Some(v) => format!("some {}", v),
+			None => "none".to_string(),
+		};
+		if obs != exp {
+			self.fail(&format!("key-value column: get {} expected {} observed {}", hex(key), exp, obs));
 		}
 	}
 }
@@ -789,6 +958,31 @@ pub(crate) struct RcDumpStats {
 	pub(crate) rc_entries: usize,
 	pub(crate) max_count: u64,
 	pub(crate) max_fan: usize,
+	pub(crate) shadowed: usize,
+}
+
+/// entries of the ref-count tables in search order, first hit per address (`shadowed` counts the
+/// entries hidden behind a newer table)
+pub(crate) fn effective_rc(d: &parity_db::verif::MultiTreeDump, shadowed: &mut usize) -> Vec<(u64, u64)> {
+	let mut order: Vec<&Vec<(u64, u64)>> = vec![];
+	if let Some(first) = d.ref_count_tables.first() {
+		order.push(&first.1);
+	}
+	for t in d.ref_count_tables.iter().skip(1).rev() {
+		order.push(&t.1);
+	}
+	let mut seen = std::collections::HashSet::new();
+	let mut out = vec![];
+	for entries in order {
+		for (a, c) in entries {
+			if seen.insert(*a) {
+				out.push((*a, *c));
+			} else {
+				*shadowed += 1;
+			}
+		}
+	}
+	out
 }
 
 /// `t2rc <has_rc> <ref_counted> {R addr count child*}* {N addr child*}* [X addr*] [C {addr count}*]
@@ -833,14 +1027,17 @@ pub(crate) fn t2rc_line(d: &parity_db::verif::MultiTreeDump, allowed: &[u64]) ->
 			write!(s, " {}", a).unwrap();
 		}
 	}
-	if d.ref_count_tables.iter().any(|t| !t.1.is_empty()) {
+	// the EFFECTIVE ref-count map: first hit in the search order of `search_all_ref_count`
+	// (current table, then the queued tables newest first; the hook lists the queue oldest
+	// first).  An entry shadowed by a newer table is unobservable: it is dropped with its table,
+	// or removed together with the newer entry when the count goes back to one.
+	let eff = effective_rc(d, &mut st.shadowed);
+	if !eff.is_empty() {
 		s.push_str(" C");
-		for (_bits, entries) in &d.ref_count_tables {
-			for (a, c) in entries {
-				write!(s, " {} {}", a, c).unwrap();
-				st.rc_entries += 1;
-				st.max_count = std::cmp::max(st.max_count, *c);
-			}
+		for (a, c) in &eff {
+			write!(s, " {} {}", a, c).unwrap();
+			st.rc_entries += 1;
+			st.max_count = std::cmp::max(st.max_count, *c);
 		}
 	}
 	if let Some(cache) = &d.ref_count_cache {
@@ -879,7 +1076,12 @@ pub(crate) fn t2rc_count(ctr: &mut Counters, at: &str, d: &parity_db::verif::Mul
 	ctr.inc(&format!("t2rc.max_fan.{}", fan_class(st.max_fan)));
 	if d.ref_count_tables.len() > 1 {
 		ctr.inc("t2rc.with_queued_rc_table");
+		ctr.inc(&format!("t2rc.rc_tables.{}", d.ref_count_tables.len()));
+		if d.ref_count_tables.iter().skip(1).any(|t| !t.1.is_empty()) {
+			ctr.inc("t2rc.with_nonempty_queued_rc_table");
+		}
 	}
+	ctr.add("t2rc.shadowed_rc_entries", st.shadowed as u64);
 }
 
 /// Independent oracle for a quiescent dump of column `col`: the dumped forest IS the oracle's
@@ -946,12 +1148,8 @@ pub(crate) fn dump_matches_forest(
 		}
 	}
 	// counts: first hit in search order
-	let mut table: BTreeMap<u64, u64> = BTreeMap::new();
-	for (_bits, entries) in &d.ref_count_tables {
-		for (a, c) in entries {
-			table.entry(*a).or_insert(*c);
-		}
-	}
+	let mut shadowed = 0;
+	let table: BTreeMap<u64, u64> = effective_rc(d, &mut shadowed).into_iter().collect();
 	let mut exp_table: BTreeMap<u64, u64> = BTreeMap::new();
 	if counting {
 		for n in forest.nodes.values() {
@@ -981,41 +1179,74 @@ impl<'a> Case<'a> {
 		self.sut.queued == 0 && self.sut.logged == 0 && self.sut.flushed == 0 && self.sut.unread_files == 0
 	}
 
-	/// At a quiescent point (everything committed is in the table files): dump the forest, one
-	/// `t2rc` line for the Lean checker, the same dump against the oracle.
+	/// At a quiescent point (everything committed is in the table files): dump the forest of every
+	/// tree column, one `t2rc` line each for the Lean checker, the same dump against the oracle.
 	fn check_rc_dump(&mut self, at: &str) {
 		if !self.quiescent() {
 			return
 		}
-		let d = match self.sut.db().verif_multitree_dump(0) {
-			Ok(Some(d)) => d,
-			Ok(None) => {
-				self.fail("verif_multitree_dump: not a multitree column");
-				return
-			},
-			Err(e) => {
-				self.fail(&format!("verif_multitree_dump failed: {:?}", e));
-				return
-			},
-		};
-		let (line, st) = t2rc_line(&d, &[]);
-		self.t.op(&line, "ok");
-		t2rc_count(self.ctr, at, &d, &st, 0);
-		let counting = self.sut.v != Variant::AppendOnly;
-		if let Err(e) = dump_matches_forest(self.sut.db(), 0, &d, &self.forest, counting, self.sut.v == Variant::Rc, &[]) {
-			self.fail(&format!("structural dump ({}) differs from the oracle forest: {}", at, e));
-		} else {
-			self.ctr.inc("t2rc.oracle_forest_equal");
+		for ci in self.tree_cols() {
+			let d = match self.sut.db().verif_multitree_dump(ci as u8) {
+				Ok(Some(d)) => d,
+				Ok(None) => {
+					self.fail("verif_multitree_dump: not a multitree column");
+					return
+				},
+				Err(e) => {
+					self.fail(&format!("verif_multitree_dump failed: {:?}", e));
+					return
+				},
+			};
+			let (line, st) = t2rc_line(&d, &[]);
+			self.t.op(&line, "ok");
+			t2rc_count(self.ctr, at, &d, &st, 0);
+			let v = self.variant(ci);
+			let counting = v != Variant::AppendOnly;
+			if let Err(e) = dump_matches_forest(self.sut.db(), ci as u8, &d, &self.forests[ci], counting, v == Variant::Rc, &[]) {
+				self.fail(&format!("structural dump ({}, column {}) differs from the oracle forest: {}", at, ci, e));
+			} else {
+				self.ctr.inc("t2rc.oracle_forest_equal");
+			}
 		}
+	}
+
+	fn process_traced(&mut self) -> bool {
+		let r = self.sut.process();
+		self.t.op("c10 process", &res(&r));
+		self.ctr.inc("op.process");
+		self.note_processed();
+		if let Err(e) = r {
+			self.fail(&format!("process_commits failed: {:?}", e));
+			return false
+		}
+		true
+	}
+
+	/// one `process_reindex` call (moves a batch of entries of a queued ref-count table into the
+	/// current one, or drops the exhausted table); invisible to the logical model
+	fn reindex_traced(&mut self) -> bool {
+		let r = self.sut.reindex();
+		let shown = match &r {
+			Ok(_) => "ok".to_string(),
+			Err(e) => format!("err:{}", err_kind(e)),
+		};
+		self.t.op("c10 reindex", &shown);
+		self.ctr.inc("op.reindex");
+		match r {
+			Ok(true) => self.ctr.inc("op.reindex.record"),
+			Ok(false) => {},
+			Err(e) => {
+				self.fail(&format!("process_reindex failed: {:?}", e));
+				return false
+			},
+		}
+		true
 	}
 
 	/// process everything queued, flush, enact: with one model line per step
 	fn drain_traced(&mut self) {
 		while self.sut.queued > 0 && self.ok {
-			let r = self.sut.process();
-			self.t.op("c10 process", &res(&r));
-			if let Err(e) = r {
-				self.fail(&format!("process_commits failed: {:?}", e));
+			if !self.process_traced() {
 				return
 			}
 		}
@@ -1030,6 +1261,296 @@ impl<'a> Case<'a> {
 		if let Err(e) = r {
 			self.fail(&format!("enact_logs failed: {:?}", e));
 		}
+	}
+}
+
+// ------------------------------------------------------------------------------------------
+// Transactions
+
+#[derive(Clone, Debug)]
+enum TxOp {
+	Insert { ci: usize, key: Vec<u8>, g: GNode, mf: usize },
+	Ref { ci: usize, key: Vec<u8> },
+	Deref { ci: usize, key: Vec<u8> },
+	KvSet { ci: usize, key: Vec<u8>, val: String },
+	KvDel { ci: usize, key: Vec<u8> },
+	KvRef { ci: usize, key: Vec<u8> },
+}
+
+impl TxOp {
+	fn ci(&self) -> usize {
+		match self {
+			TxOp::Insert { ci, .. } |
+			TxOp::Ref { ci, .. } |
+			TxOp::Deref { ci, .. } |
+			TxOp::KvSet { ci, .. } |
+			TxOp::KvDel { ci, .. } |
+			TxOp::KvRef { ci, .. } => *ci,
+		}
+	}
+	fn kind(&self) -> &'static str {
+		match self {
+			TxOp::Insert { .. } => "insert",
+			TxOp::Ref { .. } => "ref",
+			TxOp::Deref { .. } => "deref",
+			TxOp::KvSet { .. } => "kvset",
+			TxOp::KvDel { .. } => "kvdel",
+			TxOp::KvRef { .. } => "kvref",
+		}
+	}
+}
+
+struct InsertShape {
+	depth: usize,
+	wide: Option<usize>,
+	mass: Option<bool>, // Some(first): the mass-sharing trees
+}
+
+impl<'a> Case<'a> {
+	/// Is this operation acceptable (the property's list, restated; not derived from the model)?
+	fn op_valid(&self, op: &TxOp) -> bool {
+		let kind = self.sut.cfg.cols[op.ci()];
+		match (op, kind) {
+			(TxOp::Insert { mf, .. }, ColKind::Tree(_)) => *mf <= 255,
+			(TxOp::Ref { .. }, ColKind::Tree(v)) => v != Variant::Plain,
+			(TxOp::Deref { ci, key }, ColKind::Tree(v)) => v != Variant::AppendOnly && self.visible(*ci, key),
+			(TxOp::KvSet { .. }, ColKind::Kv) | (TxOp::KvDel { .. }, ColKind::Kv) => true,
+			_ => false, // tree operation on a key-value column, key-value operation on a tree column, Reference without counting
+		}
+	}
+
+	fn model_op(&self, op: &TxOp, paths: &[HashMap<usize, (Vec<u8>, Vec<usize>)>]) -> String {
+		match op {
+			TxOp::Insert { ci, key, g, .. } => {
+				let mut s = format!("{} insert {}", ci, hex(key));
+				if let ColKind::Tree(_) = self.sut.cfg.cols[*ci] {
+					model_tokens(g, &paths[*ci], &mut s);
+				} else {
+					model_tokens(g, &HashMap::new(), &mut s);
+				}
+				s
+			},
+			TxOp::Ref { ci, key } => format!("{} ref {}", ci, hex(key)),
+			TxOp::Deref { ci, key } => format!("{} deref {}", ci, hex(key)),
+			TxOp::KvSet { ci, key, val } => format!("{} set {} {}", ci, hex(key), val),
+			TxOp::KvDel { ci, key } => format!("{} del {}", ci, hex(key)),
+			TxOp::KvRef { ci, key } => format!("{} kref {}", ci, hex(key)),
+		}
+	}
+
+	fn real_op(&mut self, op: &TxOp) -> (u8, Operation<Vec<u8>, Vec<u8>>) {
+		match op {
+			TxOp::Insert { ci, key, g, .. } => {
+				let real = to_real(g, &self.forests[*ci], &mut self.vals);
+				(*ci as u8, Operation::InsertTree(key.clone(), real))
+			},
+			TxOp::Ref { ci, key } => (*ci as u8, Operation::ReferenceTree(key.clone())),
+			TxOp::Deref { ci, key } => (*ci as u8, Operation::DereferenceTree(key.clone())),
+			TxOp::KvSet { ci, key, val } => (*ci as u8, Operation::Set(key.clone(), self.vals.bytes(val))),
+			TxOp::KvDel { ci, key } => (*ci as u8, Operation::Dereference(key.clone())),
+			TxOp::KvRef { ci, key } => (*ci as u8, Operation::Reference(key.clone())),
+		}
+	}
+
+	/// Commit one transaction: model line, oracle verdict, oracle effects, read back.
+	/// Returns whether it was accepted.
+	fn commit_tx(&mut self, tx: &[TxOp], injected: bool) -> bool {
+		let paths: Vec<HashMap<usize, (Vec<u8>, Vec<usize>)>> = self.forests.iter().map(|f| f.paths()).collect();
+		// protocol line: the one-operation forms on column 0 keep their old syntax
+		let line = if tx.len() == 1 && tx[0].ci() == 0 && matches!(tx[0], TxOp::Insert { .. } | TxOp::Ref { .. } | TxOp::Deref { .. }) {
+			let s = self.model_op(&tx[0], &paths);
+			format!("c10 {}", &s[2..])
+		} else {
+			let parts: Vec<String> = tx.iter().map(|o| self.model_op(o, &paths)).collect();
+			format!("c10 tx {}", parts.join(" ; "))
+		};
+		let expect_ok = tx.iter().all(|o| self.op_valid(o));
+		let real: Vec<(u8, Operation<Vec<u8>, Vec<u8>>)> = tx.iter().map(|o| self.real_op(o)).collect();
+		let tree_cols = self.tree_cols();
+		let before: Vec<Option<u64>> = tree_cols.iter().map(|c| self.sut.db().get_num_column_value_entries(*c as u8).ok()).collect();
+		let r = self.sut.db().commit_changes(real);
+		self.t.op(&line, &res(&r));
+		self.ctr.inc(&format!("tx.ops.{}", std::cmp::min(tx.len(), 6)));
+		let ncols = { let mut cs: Vec<usize> = tx.iter().map(|o| o.ci()).collect(); cs.sort(); cs.dedup(); cs.len() };
+		self.ctr.inc(&format!("tx.columns.{}", ncols));
+		for o in tx {
+			self.ctr.inc(&format!("op.{}.{}", o.kind(), if r.is_ok() { "ok" } else { "rejected" }));
+		}
+		if tx.len() > 1 {
+			self.ctr.inc(if r.is_ok() { "tx.multi.ok" } else { "tx.multi.rejected" });
+			let mut kinds: Vec<&str> = tx.iter().map(|o| o.kind()).collect();
+			kinds.sort();
+			kinds.dedup();
+			self.ctr.inc(&format!("tx.multi.kinds.{}", kinds.join("+")));
+		}
+		if r.is_ok() != expect_ok {
+			if expect_ok {
+				self.fail(&format!("valid transaction rejected: {:?} ({})", r, clip(&line)));
+			} else {
+				self.sut.queued += 1;
+				self.pending_dead.push_back(vec![]);
+				self.fail(&format!("transaction with an invalid operation was accepted ({})", clip(&line)));
+			}
+			return r.is_ok()
+		}
+		if let Err(e) = &r {
+			// rejected: no trace.  Entry counts of every tree column, every named tree, the named keys
+			self.ctr.inc(&format!("tx.rejected.{}", err_kind(e)));
+			if injected {
+				self.ctr.inc("tx.rejected.injected");
+			}
+			let after: Vec<Option<u64>> = tree_cols.iter().map(|c| self.sut.db().get_num_column_value_entries(*c as u8).ok()).collect();
+			if before != after {
+				self.fail(&format!("rejected transaction changed the entry counts {:?} -> {:?} ({})", before, after, clip(&line)));
+			}
+			for o in tx {
+				match o {
+					TxOp::Insert { ci, key, .. } | TxOp::Ref { ci, key } | TxOp::Deref { ci, key } =>
+						if self.sut.cfg.cols[*ci].variant().is_some() {
+							self.check_tree(*ci, key);
+						},
+					TxOp::KvSet { ci, key, .. } | TxOp::KvDel { ci, key } | TxOp::KvRef { ci, key } =>
+						if self.sut.cfg.cols[*ci] == ColKind::Kv {
+							self.check_kv(*ci, key);
+						},
+				}
+			}
+			for c in tree_cols {
+				self.check_count(c);
+			}
+			return false
+		}
+		// accepted
+		self.sut.queued += 1;
+		let mut dead: Vec<(usize, Vec<u8>)> = vec![];
+		// oracle: operations in order, the dereferences after everything else
+		for o in tx {
+			match o {
+				TxOp::Insert { ci, key, g, .. } => {
+					let v = self.variant(*ci);
+					self.forests[*ci].insert(key, g, v != Variant::AppendOnly);
+				},
+				TxOp::Ref { ci, key } =>
+					if self.variant(*ci) == Variant::Rc {
+						if let Some(root) = self.forests[*ci].roots.get_mut(key) {
+							root.count += 1;
+							self.ctr.inc("op.ref.live_root");
+						}
+					},
+				TxOp::KvSet { key, val, .. } => {
+					self.kv.insert(key.clone(), val.clone());
+				},
+				TxOp::KvDel { key, .. } => {
+					self.kv.remove(key);
+				},
+				TxOp::Deref { .. } | TxOp::KvRef { .. } => {},
+			}
+		}
+		for o in tx {
+			if let TxOp::Deref { ci, key } = o {
+				if self.forests[*ci].roots.contains_key(key) {
+					let nodes_before = self.forests[*ci].nodes.len();
+					if self.forests[*ci].deref(key) {
+						dead.push((*ci, key.clone()));
+						self.ctr.inc("deref.last_reference");
+						let freed = nodes_before - self.forests[*ci].nodes.len();
+						if freed > 0 {
+							self.ctr.add("deref.nodes_freed", freed as u64);
+							self.ctr.inc("cases_with.free");
+						}
+						if !self.forests[*ci].nodes.is_empty() {
+							self.ctr.inc("deref.with_survivors");
+						}
+					}
+				} else {
+					self.ctr.inc("deref.dead_root_accepted_while_queued");
+				}
+			}
+		}
+		self.pending_dead.push_back(dead);
+		// read back every inserted tree (commit overlay), learn the addresses of the new nodes
+		for o in tx {
+			if let TxOp::Insert { ci, key, g, .. } = o {
+				let ids = self.forests[*ci].roots[key].children.clone();
+				let (forest, vals) = (&mut self.forests[*ci], &mut self.vals);
+				let got = with_reader(self.sut.db(), *ci as u8, key, |rd| match rd.root(key) {
+					Ok(Some(rootval)) => learn_addresses(rd, g, &rootval, &ids, forest, vals),
+					Ok(None) => Err("root not readable after accepted InsertTree".to_string()),
+					Err(e) => Err(e),
+				})
+				.and_then(|x| x);
+				if let Err(e) = got {
+					self.fail(&format!("read back after InsertTree {}: {}", kname(*ci, key), e));
+					return true
+				}
+			}
+		}
+		for o in tx {
+			match o {
+				TxOp::Insert { ci, key, .. } | TxOp::Ref { ci, key } | TxOp::Deref { ci, key } => self.check_tree(*ci, key),
+				TxOp::KvSet { ci, key, .. } | TxOp::KvDel { ci, key } | TxOp::KvRef { ci, key } => self.check_kv(*ci, key),
+			}
+			if !self.ok {
+				break
+			}
+		}
+		true
+	}
+
+	/// A generated tree for column `ci`, with `Existing` children among the nodes of `wf` (the
+	/// forest as it is at this point of the transaction) whose address is known.
+	fn gen_tree(&mut self, rng: &mut Rng, wf: &Forest, shape: &InsertShape, thorough: bool) -> (GNode, GenStats) {
+		let mut live: Vec<usize> = wf.nodes.iter().filter(|(_, n)| n.addr.is_some()).map(|(id, _)| *id).collect();
+		live.sort();
+		let mut st = GenStats { new_nodes: 0, existing: 0, max_fan: 0, multipart: 0, depth: 0, expanded: 0, repeated_existing: false };
+		let mut budget: isize = if thorough { 600 } else { 250 };
+		let fan_mode = rng.below(3);
+		let mut used = HashMap::new();
+		let mut wide = shape.wide;
+		let g = if let Some(first) = shape.mass {
+			if first {
+				mass_tree(rng, &mut self.vals, &[], &mut st)
+			} else {
+				mass_tree(rng, &mut self.vals, &live, &mut st)
+			}
+		} else if wide.is_some() && rng.chance(1, 2) {
+			// the wide node sits one level down
+			let mut inner_wide = wide.take();
+			let mut g = gen_node(rng, &mut self.vals, wf, &live, 1, &mut budget, 2, &mut None, &mut st, 0, &mut used);
+			let child = gen_node(rng, &mut self.vals, wf, &live, 1, &mut budget, 0, &mut inner_wide, &mut st, 1, &mut used);
+			g.children.push(GRef::New(child));
+			g
+		} else {
+			gen_node(rng, &mut self.vals, wf, &live, shape.depth, &mut budget, fan_mode, &mut wide, &mut st, 0, &mut used)
+		};
+		(g, st)
+	}
+
+	fn insert_stats(&mut self, ci: usize, g: &GNode, st: &mut GenStats) {
+		let v = self.variant(ci);
+		self.ctr.add("insert.new_nodes", st.new_nodes as u64);
+		self.ctr.add("insert.existing_refs", st.existing as u64);
+		self.ctr.inc(&format!("insert.sharing.{}", match st.existing { 0 => "0", 1 => "1", 2..=4 => "2-4", 5..=99 => "5-99", _ => "100+" }));
+		if st.repeated_existing {
+			self.ctr.inc("insert.same_node_several_times");
+		}
+		fn count_mp(v: Variant, g: &GNode, root: bool) -> usize {
+			let mut n = if is_multipart(v, root, &g.data, g.children.len()) { 1 } else { 0 };
+			for ch in &g.children {
+				if let GRef::New(x) = ch {
+					n += count_mp(v, x, false);
+				}
+			}
+			n
+		}
+		st.multipart = count_mp(v, g, true);
+		self.ctr.add("insert.multipart_nodes", st.multipart as u64);
+		if st.multipart > 0 {
+			self.ctr.inc("insert.with_multipart");
+		}
+		self.ctr.inc(&format!("insert.expanded.{}", match st.expanded { 0..=1 => "1", 2..=10 => "2-10", 11..=100 => "11-100", 101..=1000 => "101-1000", _ => "1000+" }));
+		self.ctr.inc(&format!("insert.maxfan.{}", fan_class(max_fan(g))));
+		self.ctr.inc(&format!("insert.depth.{}", st.depth));
 	}
 }
 
@@ -1052,32 +1573,94 @@ fn gen_key(rng: &mut Rng, i: u64) -> Vec<u8> {
 	k
 }
 
+fn kv_val(rng: &mut Rng, vals: &mut Values) -> String {
+	let len = match rng.below(10) {
+		0 => 0,
+		1..=6 => rng.range(1, 40),
+		7 | 8 => rng.range(40, 600),
+		_ => rng.range(4000, 9000),
+	};
+	vals.canon(format!("v{}_{}", len, rng.below(1 << 30)))
+}
+
 pub fn run_case(seed: u64, thorough: bool, root: &Path, t: &mut Trace, ctr: &mut Counters, prop: &str) -> bool {
 	let mut rng = Rng::new(seed);
 	// separate stream for the drain points added for the structural dumps (t2rc)
 	let mut rng_dump = Rng::new(seed ^ 0x7432_7263);
-	let v = *rng.pick(&[Variant::AppendOnly, Variant::Rc, Variant::Rc, Variant::Plain, Variant::Plain]);
+	// separate stream for everything added with transactions / several columns, so that old
+	// single-column single-operation histories keep their shape
+	let mut rng_tx = Rng::new(seed ^ 0x7478_5f63_3130);
+	let v0 = *rng.pick(&[Variant::AppendOnly, Variant::Rc, Variant::Rc, Variant::Plain, Variant::Plain]);
 	let mut salt = [0u8; 32];
 	for i in 0..4 {
 		salt[i * 8..i * 8 + 8].copy_from_slice(&rng.next().to_le_bytes());
 	}
-	let dir = fresh_dir(root, &format!("c10-{}", seed));
-	t.begin_case(&format!("seed={} variant={}", seed, v.name()));
-	t.op(&format!("c10 init {}", v.name()), "ok");
-	ctr.inc(&format!("variant.{}", v.name()));
-	let sut = Sut::create(v, salt, dir.clone());
-	let nkeys = rng.range(2, 7);
-	let keys: Vec<Vec<u8>> = (0..nkeys).map(|i| gen_key(&mut rng, i)).collect();
-	let mut c = Case { sut, forest: Forest::default(), vals: Values::default(), t, ctr, prop, ok: true };
-	let nact = rng.range(10, if thorough { 90 } else { 45 }) as usize;
-	let counting = v != Variant::AppendOnly;
-	let mut had_sharing = false;
-	let mut had_free = false;
-	let mut big_done = 0;
+	// columns: 1..3 tree columns, optionally one key-value column behind them
+	let mut cols = vec![ColKind::Tree(v0)];
+	match rng_tx.below(20) {
+		0..=10 => {},
+		11..=16 => cols.push(ColKind::Tree(*rng_tx.pick(&[Variant::AppendOnly, Variant::Rc, Variant::Plain, Variant::Plain]))),
+		_ => {
+			cols.push(ColKind::Tree(*rng_tx.pick(&[Variant::Rc, Variant::Plain])));
+			cols.push(ColKind::Tree(*rng_tx.pick(&[Variant::AppendOnly, Variant::Rc, Variant::Plain])));
+		},
+	}
+	if rng_tx.chance(1, 3) {
+		cols.push(ColKind::Kv);
+	}
+	let compression = *rng_tx.pick(&[
+		CompressionType::NoCompression,
+		CompressionType::NoCompression,
+		CompressionType::Lz4,
+		CompressionType::Snappy,
+	]);
+	let threshold = if compression != CompressionType::NoCompression && rng_tx.chance(1, 2) { Some(rng_tx.range(8, 64) as u32) } else { None };
+	let counting0 = v0 != Variant::AppendOnly;
 	// mass sharing (one case in six, counting variants): a first tree with several hundred leaves,
 	// later trees that reference hundreds of its nodes in ONE transaction (many reference-count
-	// changes in one record, several of them in the same chunk of the ref-count table)
-	let mass = counting && rng.chance(1, 6);
+	// changes in one record, several of them in the same chunk of the ref-count table); the
+	// ref-count table starts with 2..16 chunks so that it has to grow (hook)
+	let mass = counting0 && rng.chance(1, 6);
+	let rcbits = if mass { rng_tx.range(1, 4) as u8 } else if rng_tx.chance(1, 8) { rng_tx.range(1, 3) as u8 } else { 0 };
+	let cfg = Cfg { cols: cols.clone(), compression, threshold, rcbits };
+	let dir = fresh_dir(root, &format!("c10-{}", seed));
+	let colnames: Vec<&str> = cols.iter().map(|c| c.name()).collect();
+	t.begin_case(&format!(
+		"seed={} columns={} compression={}{} rcbits={}",
+		seed,
+		colnames.join(","),
+		compression_name(compression),
+		threshold.map_or(String::new(), |x| format!("/{}", x)),
+		rcbits
+	));
+	t.op(&format!("c10 init {}", colnames.join(" ")), "ok");
+	for c in &cols {
+		ctr.inc(&format!("variant.{}", c.name()));
+	}
+	ctr.inc(&format!("columns.{}", cols.len()));
+	ctr.inc(&format!("compression.{}", compression_name(compression)));
+	ctr.inc(&format!("rcbits.{}", rcbits));
+	let sut = Sut::create(cfg, salt, dir.clone());
+	let nkeys = rng.range(2, 7);
+	let keys: Vec<Vec<u8>> = (0..nkeys).map(|i| gen_key(&mut rng, i)).collect();
+	let ncols = cols.len();
+	let kvcol = cols.iter().position(|c| *c == ColKind::Kv);
+	let mut c = Case {
+		sut,
+		forests: (0..ncols).map(|_| Forest::default()).collect(),
+		kv: BTreeMap::new(),
+		vals: Values::default(),
+		t,
+		ctr,
+		prop,
+		ok: true,
+		pending_dead: VecDeque::new(),
+		big_reads: 0,
+	};
+	let tree_cols = c.tree_cols();
+	let nact = rng.range(10, if thorough { 90 } else { 45 }) as usize;
+	let mut had_sharing = false;
+	let mut big_done = 0;
 	let mut mass_stage = 0;
 	if mass {
 		ctr_inc_mass(c.ctr);
@@ -1085,244 +1668,202 @@ pub fn run_case(seed: u64, thorough: bool, root: &Path, t: &mut Trace, ctr: &mut
 
 	for _step in 0..nact {
 		let a = rng.below(100);
-		if a < 32 {
-			// ---------------------------------------------------------------- InsertTree
-			let free_keys: Vec<&Vec<u8>> = keys.iter().filter(|k| !c.forest.roots.contains_key(*k)).collect();
-			if free_keys.is_empty() {
-				continue
-			}
-			let key = (*rng.pick(&free_keys)).clone();
-			let mut live: Vec<usize> = c.forest.nodes.iter().filter(|(_, n)| n.addr.is_some()).map(|(id, _)| *id).collect();
-			live.sort();
-			let shape = rng.below(100);
-			let mut wide: Option<usize> = None;
-			let mut depth = match shape {
-				0..=9 => 0,
-				10..=49 => rng.range(1, 2),
-				50..=79 => rng.range(2, 3),
-				_ => rng.range(3, 5),
-			} as usize;
-			let mut too_wide = false;
-			if shape % 10 == 7 && big_done < 2 {
-				// one node with a large fan-out somewhere in the tree
-				big_done += 1;
-				let w = match rng.below(6) {
-					0 | 1 => 255,
-					2 => 256,
-					3 => rng.range(257, 300),
-					4 => rng.range(100, 254),
-					_ => 254,
-				} as usize;
-				too_wide = w > 255;
-				wide = Some(w);
-				depth = std::cmp::max(depth, 1);
-			}
-			let mut st = GenStats { new_nodes: 0, existing: 0, max_fan: 0, multipart: 0, depth: 0, expanded: 0, repeated_existing: false };
-			let mut budget: isize = if thorough { 600 } else { 250 };
-			let fan_mode = rng.below(3);
-			// the wide node sits at the root or one level down
-			let mut used = HashMap::new();
-			let mass_g = if mass && !too_wide && mass_stage == 0 {
-				mass_stage = 1;
-				Some(mass_tree(&mut rng, &mut c.vals, &[], &mut st))
-			} else if mass && !too_wide && mass_stage >= 1 && live.len() >= 150 && rng.chance(1, 2) {
-				mass_stage += 1;
-				Some(mass_tree(&mut rng, &mut c.vals, &live, &mut st))
-			} else {
-				None
-			};
-			let g = if let Some(g) = mass_g {
-				wide = None;
-				g
-			} else if wide.is_some() && rng.chance(1, 2) {
-				let mut inner_wide = wide.take();
-				let mut g = gen_node(&mut rng, &mut c.vals, &c.forest, &live, 1, &mut budget, 2, &mut None, &mut st, 0, &mut used);
-				let child = gen_node(&mut rng, &mut c.vals, &c.forest, &live, 1, &mut budget, 0, &mut inner_wide, &mut st, 1, &mut used);
-				g.children.push(GRef::New(child));
-				g
-			} else {
-				gen_node(&mut rng, &mut c.vals, &c.forest, &live, depth, &mut budget, fan_mode, &mut wide, &mut st, 0, &mut used)
-			};
-			let mf = max_fan(&g);
-			debug_assert_eq!(too_wide, mf > 255);
-			let paths = c.forest.paths();
-			let mut line = format!("c10 insert {}", hex(&key));
-			model_tokens(&g, &paths, &mut line);
-			let real = to_real(&g, &c.forest, &mut c.vals);
-			let before = c.sut.db().get_num_column_value_entries(0).ok();
-			let r = c.sut.db().commit_changes(vec![(0u8, Operation::InsertTree(key.clone(), real))]);
-			c.t.op(&line, &res(&r));
-			c.ctr.inc(if r.is_ok() { "op.insert.ok" } else { "op.insert.rejected" });
-			c.ctr.inc(&format!("insert.maxfan.{}", fan_class(mf)));
-			c.ctr.inc(&format!("insert.depth.{}", st.depth));
-			if mf > 255 {
-				// must be rejected and leave no trace
-				match &r {
-					Ok(()) => {
-						c.fail(&format!("InsertTree with a node of {} children was accepted", mf));
-						c.sut.queued += 1;
-					},
-					Err(e) =>
-						if err_kind(e) != "InvalidInput" {
-							c.fail(&format!("InsertTree with {} children: unexpected error {:?}", mf, e));
-						},
-				}
-				if r.is_err() {
-					let after = c.sut.db().get_num_column_value_entries(0).ok();
-					if before != after {
-						c.fail(&format!("rejected InsertTree changed the entry count {:?} -> {:?}", before, after));
+		if a < 58 {
+			// ------------------------------------------------------------ a transaction
+			// first operation: as the one-operation histories drew it (InsertTree 32, ReferenceTree 8,
+			// DereferenceTree 18); then, from the separate stream, further operations
+			let nops = if rng_tx.chance(2, 5) { rng_tx.range(2, 5) as usize } else { 1 };
+			let mut tx: Vec<TxOp> = vec![];
+			// the forests as they are at this point of the transaction (operations in order)
+			let mut wf: Vec<Forest> = c.forests.clone();
+			let mut used_keys: Vec<(usize, Vec<u8>)> = vec![];
+			let mut sharing_here = false;
+			for i in 0..nops {
+				let (ci, kind) = if i == 0 {
+					(0usize, if a < 32 { 0 } else if a < 40 { 1 } else { 2 })
+				} else {
+					let ci = if let (Some(k), true) = (kvcol, rng_tx.chance(1, 5)) { k } else { *rng_tx.pick(&tree_cols) };
+					(ci, match rng_tx.below(10) { 0..=4 => 0, 5 | 6 => 1, _ => 2 })
+				};
+				if Some(ci) == kvcol {
+					let key = rng_tx.pick(&keys).clone();
+					if rng_tx.chance(2, 3) {
+						let val = kv_val(&mut rng_tx, &mut c.vals);
+						tx.push(TxOp::KvSet { ci, key, val });
+					} else {
+						tx.push(TxOp::KvDel { ci, key });
 					}
-					c.check_tree(&key);
-					c.check_count();
-				}
-				continue
-			}
-			match &r {
-				Err(e) => {
-					c.fail(&format!("valid InsertTree rejected: {:?}", e));
 					continue
-				},
-				Ok(()) => c.sut.queued += 1,
+				}
+				let v = c.variant(ci);
+				let r = if i == 0 { &mut rng } else { &mut rng_tx };
+				// further operations: mostly valid ones (a transaction with one invalid operation is
+				// rejected as a whole; those come from the first operation and from the injection below)
+				let kind = if i > 0 && !r.chance(1, 10) {
+					let no_live = !c.forests[ci].roots.keys().any(|k| wf[ci].roots.contains_key(k) && !used_keys.iter().any(|(cc, kk)| *cc == ci && kk == k));
+					match kind {
+						1 if v == Variant::Plain => 0,
+						2 if v == Variant::AppendOnly || no_live => 0,
+						k => k,
+					}
+				} else {
+					kind
+				};
+				match kind {
+					0 => {
+						// InsertTree under a key with no live root that this transaction does not name
+						let free_keys: Vec<Vec<u8>> = keys
+							.iter()
+							.filter(|k| !wf[ci].roots.contains_key(*k) && !used_keys.iter().any(|(cc, kk)| *cc == ci && kk == *k))
+							.cloned()
+							.collect();
+						if free_keys.is_empty() {
+							continue
+						}
+						let key = r.pick(&free_keys).clone();
+						let shape_n = r.below(100);
+						let mut depth = match shape_n {
+							0..=9 => 0,
+							10..=49 => r.range(1, 2),
+							50..=79 => r.range(2, 3),
+							_ => r.range(3, 5),
+						} as usize;
+						let mut wide = None;
+						let mut too_wide = false;
+						if shape_n % 10 == 7 && big_done < 2 {
+							// one node with a large fan-out somewhere in the tree
+							big_done += 1;
+							let w = match r.below(6) {
+								0 | 1 => 255,
+								2 => 256,
+								3 => r.range(257, 300),
+								4 => r.range(100, 254),
+								_ => 254,
+							} as usize;
+							too_wide = w > 255;
+							wide = Some(w);
+							depth = std::cmp::max(depth, 1);
+						}
+						let live_n = wf[ci].nodes.values().filter(|n| n.addr.is_some()).count();
+						let counting = v != Variant::AppendOnly;
+						let mass_shape = if mass && ci == 0 && counting && !too_wide && mass_stage == 0 {
+							mass_stage = 1;
+							Some(true)
+						} else if mass && ci == 0 && counting && !too_wide && mass_stage >= 1 && live_n >= 150 && r.chance(1, 2) {
+							mass_stage += 1;
+							Some(false)
+						} else {
+							None
+						};
+						if mass_shape.is_some() {
+							wide = None;
+						}
+						let shape = InsertShape { depth, wide, mass: mass_shape };
+						let (g, mut st) = c.gen_tree(r, &wf[ci], &shape, thorough);
+						let mf = max_fan(&g);
+						debug_assert_eq!(too_wide, mf > 255);
+						if mf <= 255 {
+							c.insert_stats(ci, &g, &mut st);
+							if st.existing > 0 {
+								sharing_here = true;
+							}
+							wf[ci].insert(&key, &g, counting);
+						} else {
+							c.ctr.inc(&format!("insert.maxfan.{}", fan_class(mf)));
+						}
+						used_keys.push((ci, key.clone()));
+						tx.push(TxOp::Insert { ci, key, g, mf });
+					},
+					1 => {
+						let key = r.pick(&keys).clone();
+						if used_keys.iter().any(|(cc, kk)| *cc == ci && *kk == key) {
+							continue
+						}
+						if v == Variant::Rc {
+							if let Some(root) = wf[ci].roots.get_mut(&key) {
+								root.count += 1;
+							}
+						}
+						used_keys.push((ci, key.clone()));
+						tx.push(TxOp::Ref { ci, key });
+					},
+					_ => {
+						// DereferenceTree of a root that was live before the call (now and then of one
+						// that is not)
+						let live_keys: Vec<Vec<u8>> = c.forests[ci]
+							.roots
+							.keys()
+							.filter(|k| wf[ci].roots.contains_key(*k) && !used_keys.iter().any(|(cc, kk)| *cc == ci && kk == *k))
+							.cloned()
+							.collect();
+						let missing = live_keys.is_empty() || r.chance(1, if i == 0 { 8 } else { 16 });
+						let key = if missing { r.pick(&keys).clone() } else { r.pick(&live_keys).clone() };
+						if used_keys.iter().any(|(cc, kk)| *cc == ci && *kk == key) {
+							continue
+						}
+						if v != Variant::AppendOnly && wf[ci].roots.contains_key(&key) && c.forests[ci].roots.contains_key(&key) {
+							wf[ci].deref(&key);
+						}
+						used_keys.push((ci, key.clone()));
+						tx.push(TxOp::Deref { ci, key });
+					},
+				}
 			}
-			// oracle
-			c.forest.insert(&key, &g, counting);
-			// distribution
-			c.ctr.add("insert.new_nodes", st.new_nodes as u64);
-			c.ctr.add("insert.existing_refs", st.existing as u64);
-			c.ctr.inc(&format!("insert.sharing.{}", match st.existing { 0 => "0", 1 => "1", 2..=4 => "2-4", _ => "5+" }));
-			if st.repeated_existing {
-				c.ctr.inc("insert.same_node_several_times");
+			if tx.is_empty() {
+				continue
 			}
-			if st.existing > 0 {
-				had_sharing = true;
-			}
-			fn count_mp(v: Variant, g: &GNode, root: bool) -> usize {
-				let mut n = if is_multipart(v, root, &g.data, g.children.len()) { 1 } else { 0 };
-				for ch in &g.children {
-					if let GRef::New(x) = ch {
-						n += count_mp(v, x, false);
+			// now and then one invalid operation at a random position of a multi-operation transaction
+			let mut injected = false;
+			if tx.len() > 1 && rng_tx.chance(1, 5) {
+				let mut cands: Vec<TxOp> = vec![];
+				let fresh_key = {
+					let mut k = rng_tx.pick(&keys).clone();
+					k[0] = 0xf0 + rng_tx.below(8) as u8;
+					k
+				};
+				for ci in 0..ncols {
+					match cols[ci] {
+						ColKind::Tree(v) => {
+							let w = rng_tx.range(256, 300) as usize;
+							let leafs = (0..w).map(|_| GRef::New(GNode { data: c.vals.canon("v1_1".into()), children: vec![] })).collect();
+							cands.push(TxOp::Insert { ci, key: fresh_key.clone(), g: GNode { data: c.vals.canon("v2_2".into()), children: leafs }, mf: w });
+							cands.push(TxOp::Deref { ci, key: fresh_key.clone() });
+							if v == Variant::Plain {
+								cands.push(TxOp::Ref { ci, key: rng_tx.pick(&keys).clone() });
+							}
+							cands.push(TxOp::KvSet { ci, key: fresh_key.clone(), val: c.vals.canon("v3_3".into()) });
+							cands.push(TxOp::KvRef { ci, key: fresh_key.clone() });
+						},
+						ColKind::Kv => {
+							cands.push(TxOp::KvRef { ci, key: rng_tx.pick(&keys).clone() });
+							cands.push(TxOp::Deref { ci, key: fresh_key.clone() });
+							cands.push(TxOp::Insert { ci, key: fresh_key.clone(), g: GNode { data: c.vals.canon("v2_2".into()), children: vec![] }, mf: 0 });
+						},
 					}
 				}
-				n
+				let bad = rng_tx.pick(&cands).clone();
+				let pos = rng_tx.below(tx.len() as u64 + 1) as usize;
+				c.ctr.inc(&format!("tx.invalid_at.{}", if pos == 0 { "first" } else if pos == tx.len() { "last" } else { "middle" }));
+				c.ctr.inc(&format!("tx.invalid_kind.{}.on.{}", bad.kind(), cols[bad.ci()].name()));
+				tx.insert(pos, bad);
+				injected = true;
 			}
-			st.multipart = count_mp(v, &g, true);
-			c.ctr.add("insert.multipart_nodes", st.multipart as u64);
-			if st.multipart > 0 {
-				c.ctr.inc("insert.with_multipart");
-			}
-			c.ctr.inc(&format!("insert.expanded.{}", match st.expanded { 0..=1 => "1", 2..=10 => "2-10", 11..=100 => "11-100", 101..=1000 => "101-1000", _ => "1000+" }));
-			// read back immediately (commit overlay), learn the addresses of the new nodes
-			let ids = c.forest.roots[&key].children.clone();
-			let (forest, vals) = (&mut c.forest, &mut c.vals);
-			let got = with_reader(c.sut.db(), &key, |rd| match rd.root(&key) {
-				Ok(Some(rootval)) => learn_addresses(rd, &g, &rootval, &ids, forest, vals),
-				Ok(None) => Err("root not readable after accepted InsertTree".to_string()),
-				Err(e) => Err(e),
-			})
-			.and_then(|x| x);
-			if let Err(e) = got {
-				c.fail(&format!("read back after InsertTree {}: {}", hex(&key), e));
+			let accepted = c.commit_tx(&tx, injected);
+			if accepted && sharing_here {
+				had_sharing = true;
 			}
 			if !c.ok {
 				break
 			}
-			c.check_tree(&key);
 			if rng.chance(1, 2) {
-				c.check_count();
+				c.check_count(0);
 			}
-		} else if a < 40 {
-			// ---------------------------------------------------------------- ReferenceTree
-			let key = rng.pick(&keys).clone();
-			let r = c.sut.db().commit_changes(vec![(0u8, Operation::ReferenceTree(key.clone()))]);
-			c.t.op(&format!("c10 ref {}", hex(&key)), &res(&r));
-			c.ctr.inc(&format!("op.ref.{}", res(&r)));
-			match v {
-				Variant::Rc => {
-					if r.is_err() {
-						c.fail(&format!("ReferenceTree rejected on a ref-counted column: {:?}", r));
-					} else {
-						c.sut.queued += 1;
-						if let Some(root) = c.forest.roots.get_mut(&key) {
-							root.count += 1;
-							c.ctr.inc("op.ref.live_root");
-						}
-					}
-				},
-				Variant::AppendOnly =>
-					if r.is_err() {
-						c.fail(&format!("ReferenceTree on append_only must be a no-op, got {:?}", r));
-					} else {
-						c.sut.queued += 1; // an empty commit is queued
-					},
-				Variant::Plain =>
-					if r.is_ok() {
-						// roots are counted iff ref_counted: a plain column cannot count
-						c.sut.queued += 1;
-						c.fail("ReferenceTree accepted on a column without ref_counted");
-					},
-			}
-			c.check_tree(&key);
-		} else if a < 58 {
-			// ---------------------------------------------------------------- DereferenceTree
-			let live_keys: Vec<Vec<u8>> = c.forest.roots.keys().cloned().collect();
-			let missing = live_keys.is_empty() || rng.chance(1, 8);
-			let key = if missing {
-				rng.pick(&keys).clone()
-			} else {
-				rng.pick(&live_keys).clone()
-			};
-			let is_live = c.forest.roots.contains_key(&key);
-			let r = c.sut.db().commit_changes(vec![(0u8, Operation::DereferenceTree(key.clone()))]);
-			c.t.op(&format!("c10 deref {}", hex(&key)), &res(&r));
-			c.ctr.inc(&format!("op.deref.{}{}", if is_live { "live." } else { "missing." }, res(&r)));
-			if v == Variant::AppendOnly {
-				if r.is_ok() {
-					c.sut.queued += 1;
-					c.fail("DereferenceTree accepted on an append_only column");
-				}
-			} else if is_live {
-				match &r {
-					Ok(()) => {
-						c.sut.queued += 1;
-						let nodes_before = c.forest.nodes.len();
-						if c.forest.deref(&key) {
-							c.ctr.inc("deref.last_reference");
-							if c.forest.nodes.len() < nodes_before {
-								had_free = true;
-								c.ctr.add("deref.nodes_freed", (nodes_before - c.forest.nodes.len()) as u64);
-							}
-							if c.forest.nodes.len() + 0 > 0 && nodes_before - c.forest.nodes.len() < nodes_before {
-								c.ctr.inc("deref.with_survivors");
-							}
-						}
-					},
-					Err(e) => c.fail(&format!("DereferenceTree of a live root rejected: {:?}", e)),
-				}
-			} else {
-				// no reference left: an error, or (while an earlier DereferenceTree of the same
-				// root is still queued and the root therefore still readable) an accepted no-op
-				match &r {
-					Ok(()) => {
-						c.sut.queued += 1;
-						c.ctr.inc("deref.dead_root_accepted_while_queued");
-					},
-					Err(e) =>
-						if err_kind(e) != "InvalidConfiguration" {
-							c.fail(&format!("DereferenceTree of a missing root: unexpected error {:?}", e));
-						},
-				}
-			}
-			c.check_tree(&key);
 		} else if a < 72 {
-			let r = c.sut.process();
-			c.t.op("c10 process", &res(&r));
-			c.ctr.inc("op.process");
-			if let Err(e) = r {
-				c.fail(&format!("process_commits failed: {:?}", e));
+			if !c.process_traced() {
 				break
 			}
 			if rng.chance(1, 2) {
-				c.check_count();
+				c.check_count(0);
 			}
 		} else if a < 77 {
 			let r = c.sut.flush();
@@ -1337,6 +1878,15 @@ pub fn run_case(seed: u64, thorough: bool, root: &Path, t: &mut Trace, ctr: &mut
 				break
 			}
 			c.check_rc_dump("enact");
+			// reindexing is gated on the enactment of the record that started it
+			if c.sut.cfg.rcbits > 0 && rng_tx.chance(1, 2) {
+				let n = rng_tx.range(1, 3);
+				for _ in 0..n {
+					if !c.reindex_traced() {
+						break
+					}
+				}
+			}
 		} else if a < 88 {
 			let r = c.sut.clean();
 			c.t.op("c10 clean", &res(&r));
@@ -1345,34 +1895,43 @@ pub fn run_case(seed: u64, thorough: bool, root: &Path, t: &mut Trace, ctr: &mut
 			let r = c.sut.reopen();
 			c.t.op("c10 reopen", &res(&r));
 			c.ctr.inc("op.reopen");
+			c.pending_dead.clear();
 			if let Err(e) = r {
 				c.fail(&format!("reopen failed: {:?}", e));
 				break
 			}
 			let ks = keys.clone();
-			for k in &ks {
-				c.check_tree(k);
+			for ci in tree_cols.clone() {
+				for k in &ks {
+					c.check_tree(ci, k);
+				}
+				c.check_count(ci);
 			}
-			c.check_count();
+			if let Some(kc) = kvcol {
+				for k in &ks {
+					c.check_kv(kc, k);
+				}
+			}
 			c.check_rc_dump("reopen");
 		} else {
 			// reads
 			let key = rng.pick(&keys).clone();
+			let ci = if tree_cols.len() > 1 { *rng_tx.pick(&tree_cols) } else { 0 };
 			match rng.below(3) {
-				0 => c.check_tree(&key),
-				1 => c.check_root(&key),
+				0 => c.check_tree(ci, &key),
+				1 => c.check_root(ci, &key),
 				_ => {
-					let paths = c.forest.paths();
+					let paths = c.forests[ci].paths();
 					let mut ids: Vec<usize> = paths.keys().cloned().collect();
 					ids.sort();
 					if !ids.is_empty() {
 						let id = *rng.pick(&ids);
 						let p = paths[&id].clone();
-						c.check_node(id, &p);
+						c.check_node(ci, id, &p);
 					}
 				},
 			}
-			c.check_count();
+			c.check_count(ci);
 		}
 		if c.sut.queued > 0 && c.sut.logged > 0 {
 			c.ctr.inc("obs.multi_stage_states");
@@ -1393,105 +1952,145 @@ pub fn run_case(seed: u64, thorough: bool, root: &Path, t: &mut Trace, ctr: &mut
 	if c.ok {
 		// all trees as they are, at whatever stage the history ended
 		let ks = keys.clone();
-		for k in &ks {
-			c.check_tree(k);
+		for ci in tree_cols.clone() {
+			for k in &ks {
+				c.check_tree(ci, k);
+			}
+			// reachability = presence: every oracle node must be reachable (oracle self-check)
+			if c.forests[ci].paths().len() != c.forests[ci].nodes.len() {
+				c.fail("oracle inconsistency: a counted node is unreachable");
+			}
 		}
-		// reachability = presence: every oracle node must be reachable (oracle self-check)
-		if c.forest.paths().len() != c.forest.nodes.len() {
-			c.fail("oracle inconsistency: a counted node is unreachable");
+		if c.ok && c.sut.cfg.rcbits > 0 {
+			// with everything in the tables: let the ref-count reindex run for a while, dumps in between
+			c.drain_traced();
+			c.check_rc_dump("before_reindex");
+			let mut rounds = 0;
+			while c.ok && c.sut.reindex_pending() && rounds < 40 {
+				if !c.reindex_traced() {
+					break
+				}
+				c.drain_traced();
+				if rounds % 3 == 0 {
+					c.check_rc_dump("reindexing");
+				}
+				rounds += 1;
+			}
+			if c.ok && !c.sut.reindex_pending() {
+				c.ctr.inc("reindex.completed");
+				c.check_rc_dump("reindexed");
+			}
 		}
-		if v != Variant::AppendOnly {
-			// dereference everything, drain: zero entries
-			let live: Vec<(Vec<u8>, u64)> = c.forest.roots.iter().map(|(k, r)| (k.clone(), r.count)).collect();
-			for (k, n) in live {
-				for _ in 0..n {
-					let r = c.sut.db().commit_changes(vec![(0u8, Operation::DereferenceTree(k.clone()))]);
-					c.t.op(&format!("c10 deref {}", hex(&k)), &res(&r));
-					if r.is_ok() {
-						c.sut.queued += 1;
-						c.forest.deref(&k);
-					} else {
-						c.fail(&format!("final DereferenceTree of live root rejected: {:?}", r));
-					}
-					// process some of them one at a time so that walks interleave with later commits
-					if rng.chance(1, 2) {
-						let r = c.sut.process();
-						c.t.op("c10 process", &res(&r));
-						if let Err(e) = r {
-							c.fail(&format!("process_commits failed: {:?}", e));
-						}
+		// dereference everything, drain: zero entries (several roots per transaction now and then)
+		let mut todo: Vec<(usize, Vec<u8>)> = vec![];
+		for ci in tree_cols.clone() {
+			if c.variant(ci) != Variant::AppendOnly {
+				for (k, r) in c.forests[ci].roots.iter() {
+					for _ in 0..r.count {
+						todo.push((ci, k.clone()));
 					}
 				}
 			}
-			while c.sut.queued > 0 && c.ok {
-				let r = c.sut.process();
-				c.t.op("c10 process", &res(&r));
-				if let Err(e) = r {
-					c.fail(&format!("process_commits failed: {:?}", e));
+		}
+		while !todo.is_empty() && c.ok {
+			// the same root at most once per transaction
+			let mut tx: Vec<TxOp> = vec![];
+			let want = if rng_tx.chance(1, 3) { rng_tx.range(2, 4) as usize } else { 1 };
+			let mut i = 0;
+			while i < todo.len() && tx.len() < want {
+				let (ci, k) = todo[i].clone();
+				if tx.iter().any(|o| matches!(o, TxOp::Deref { ci: c2, key } if *c2 == ci && *key == k)) {
+					i += 1;
+					continue
+				}
+				todo.remove(i);
+				tx.push(TxOp::Deref { ci, key: k });
+			}
+			if !c.commit_tx(&tx, false) {
+				c.fail("final DereferenceTree of live roots rejected");
+			}
+			// process some of them one at a time so that walks interleave with later commits
+			if rng.chance(1, 2) && c.ok {
+				c.process_traced();
+			}
+		}
+		while c.sut.queued > 0 && c.ok {
+			c.process_traced();
+		}
+		if c.ok {
+			for ci in tree_cols.clone() {
+				if c.variant(ci) == Variant::AppendOnly {
+					continue
+				}
+				if !c.forests[ci].nodes.is_empty() || !c.forests[ci].roots.is_empty() {
+					c.fail("oracle inconsistency: forest not empty after dereferencing every root");
+				}
+				c.check_count(ci);
+				match c.sut.db().get_num_column_value_entries(ci as u8) {
+					Ok(0) => c.ctr.inc("final.zero_entries"),
+					other => c.fail(&format!("after dereferencing every tree column {} holds {:?} entries", ci, other)),
+				}
+				for k in &ks {
+					c.check_tree(ci, k);
 				}
 			}
-			if !c.forest.nodes.is_empty() || !c.forest.roots.is_empty() {
-				c.fail("oracle inconsistency: forest not empty after dereferencing every root");
-			}
-			c.check_count();
-			match c.sut.db().get_num_column_value_entries(0) {
-				Ok(0) => c.ctr.inc("final.zero_entries"),
-				other => c.fail(&format!("after dereferencing every tree the column holds {:?} entries", other)),
-			}
-			for k in &ks {
-				c.check_tree(k);
+		}
+		if c.ok {
+			let r = c.sut.drain();
+			if let Err(e) = r {
+				c.fail(&format!("drain failed: {:?}", e));
+			} else {
+				c.check_rc_dump("final_drain");
 			}
 		}
-		let r = c.sut.drain();
-		if let Err(e) = r {
-			c.fail(&format!("drain failed: {:?}", e));
-		} else {
-			c.check_rc_dump("final_drain");
-		}
-		let r = c.sut.reopen();
-		c.t.op("c10 reopen", &res(&r));
-		if let Err(e) = r {
-			c.fail(&format!("final reopen failed: {:?}", e));
-		} else {
-			for k in &ks {
-				c.check_tree(k);
+		if c.ok {
+			let r = c.sut.reopen();
+			c.t.op("c10 reopen", &res(&r));
+			c.pending_dead.clear();
+			if let Err(e) = r {
+				c.fail(&format!("final reopen failed: {:?}", e));
+			} else {
+				for ci in tree_cols.clone() {
+					for k in &ks {
+						c.check_tree(ci, k);
+					}
+					c.check_count(ci);
+				}
+				if let Some(kc) = kvcol {
+					for k in &ks {
+						c.check_kv(kc, k);
+					}
+				}
+				c.check_rc_dump("final_reopen");
 			}
-			c.check_count();
-			c.check_rc_dump("final_reopen");
 		}
 	}
-	if c.ok && v == Variant::Plain && seed % 4 == 0 {
-		// Scenario (end of the case, nothing else is perturbed): a transaction that inserts a
-		// tree and then fails on a later operation must be rejected as a whole - no root
-		// readable, no slot claimed.  Not a model operation (one commit = one op there).
-		c.ctr.inc("scenario.rejected_tx_after_insert");
-		let key = vec![0xee, 0x01];
-		let tree = NewNode {
-			data: b"scenario-root".to_vec(),
-			children: vec![
-				NodeRef::New(NewNode { data: b"a".to_vec(), children: vec![] }),
-				NodeRef::New(NewNode { data: b"b".to_vec(), children: vec![] }),
-			],
-		};
-		let before = c.sut.db().get_num_column_value_entries(0).ok();
-		let r = c.sut.db().commit_changes(vec![
-			(0u8, Operation::InsertTree(key.clone(), tree)),
-			(0u8, Operation::ReferenceTree(key.clone())),
-		]);
-		c.t.comment(&format!("scenario tx [InsertTree ee01 (root, 2 leaves), ReferenceTree ee01] on plain -> {}", res(&r)));
-		if r.is_ok() {
-			c.fail("scenario: transaction [InsertTree k, ReferenceTree k] accepted on a column without ref_counted");
-		} else {
-			let after = c.sut.db().get_num_column_value_entries(0).ok();
-			let root = c.sut.db().get_root(0, &key);
-			if !matches!(root, Ok(None)) || before != after {
-				c.fail(&format!(
-					"rejected transaction [InsertTree k, ReferenceTree k] (plain multitree column) left a trace: root readable={} entries {:?} -> {:?}",
-					matches!(root, Ok(Some(_))),
-					before,
-					after
-				));
-			}
+	if c.ok {
+		scenarios(&mut c, seed, &mut rng_tx);
+	}
+	if c.ok && seed % 50 == 3 {
+		// compression on a multitree column: `ColumnOptions::is_valid` refuses the combination and
+		// `Db::open` asserts validity, so there is nothing to exercise; noticed if that changes
+		let d2 = fresh_dir(root, &format!("c10-compr-{}", seed));
+		let mut o = options(&Cfg { cols: vec![ColKind::Tree(Variant::Plain)], compression: CompressionType::NoCompression, threshold: None, rcbits: 0 }, &d2, salt);
+		o.columns[0].compression = if seed % 100 == 3 { CompressionType::Lz4 } else { CompressionType::Snappy };
+		let hook = std::panic::take_hook();
+		std::panic::set_hook(Box::new(|_| {}));
+		let r = std::panic::catch_unwind(std::panic::AssertUnwindSafe(|| Db::open_or_create(&o).map(|_| ())));
+		std::panic::set_hook(hook);
+		let _ = std::fs::remove_dir_all(&d2);
+		match r {
+			Ok(Ok(())) => {
+				c.ctr.inc("compression.multitree_accepted");
+				c.t.comment("a multitree column with compression was opened: not exercised by this harness");
+			},
+			_ => c.ctr.inc("compression.multitree_refused"),
+		}
+	}
+	if c.ok && seed % 50 == 7 {
+		c.ctr.inc("scenario.deep_chain");
+		if !deep_scenario(seed, root, c.t, c.ctr, prop) {
+			c.ok = false;
 		}
 	}
 	if !c.ok && c.sut.db.is_some() {
@@ -1499,15 +2098,19 @@ pub fn run_case(seed: u64, thorough: bool, root: &Path, t: &mut Trace, ctr: &mut
 		// failure left behind?  (expected `ok`: a `bad:` shows up as a model disagreement next to
 		// the oracle failure; no oracle comparison, the oracle is off already)
 		if c.sut.drain().is_ok() && c.quiescent() {
-			if let Ok(Some(d)) = c.sut.db().verif_multitree_dump(0) {
-				let (line, st) = t2rc_line(&d, &[]);
-				c.t.op(&line, "ok");
-				t2rc_count(c.ctr, "post_mortem", &d, &st, 0);
+			for ci in tree_cols.clone() {
+				if let Ok(Some(d)) = c.sut.db().verif_multitree_dump(ci as u8) {
+					let (line, st) = t2rc_line(&d, &[]);
+					c.t.op(&line, "ok");
+					t2rc_count(c.ctr, "post_mortem", &d, &st, 0);
+				}
 			}
 		}
 	}
 	c.sut.close();
+	parity_db::verif::set_min_ref_count_bits(0);
 	let _ = std::fs::remove_dir_all(&dir);
+	let had_free = c.ctr.0.remove("cases_with.free").is_some();
 	let nontrivial = had_sharing || had_free;
 	if had_sharing && had_free {
 		c.ctr.inc("cases.sharing_and_free");
@@ -1521,7 +2124,381 @@ pub fn run_case(seed: u64, thorough: bool, root: &Path, t: &mut Trace, ctr: &mut
 	ok
 }
 
+// ------------------------------------------------------------------------------------------
+// Scenarios at the end of a case (the database is drained, every counting column is empty):
+// transactions that name a root key twice, keys with a live root, dangling addresses, a stored
+// background error.  The model predicts the implementation in all of them (op lines); the oracle
+// judges only what the property covers.
+
+/// The known findings of this harness are C10's: under another property's check (the c10 command
+/// also serves C14) they are only noted.
+fn known_as_comment(t: &mut Trace, prop: &str, id: &str, msg: &str) {
+	t.comment(&format!("known finding {} {} (declared under C10 only): {}", prop, id, msg));
+}
+
+fn small_tree(vals: &mut Values, tag: u64, leaves: usize) -> GNode {
+	GNode {
+		data: vals.canon(format!("v9_{}", 3 * tag + 1)),
+		children: (0..leaves)
+			.map(|i| GRef::New(GNode { data: vals.canon(format!("v5_{}", 3 * (10 * tag + i as u64) + 1)), children: vec![] }))
+			.collect(),
+	}
+}
+
+impl<'a> Case<'a> {
+	/// model line + observation of a tree, no oracle judgement
+	fn obs_tree(&mut self, ci: usize, key: &[u8]) -> String {
+		let r = with_reader(self.sut.db(), ci as u8, key, |rd| rd.render(key, &self.vals)).and_then(|x| x);
+		let obs = match r {
+			Ok(o) => o,
+			Err(e) => format!("read-error {}", e),
+		};
+		self.t.op(&format!("c10 tree {}", kname(ci, key)), &obs);
+		obs
+	}
+	fn obs_count(&mut self, ci: usize) -> Result<u64, String> {
+		let r = self.sut.db().get_num_column_value_entries(ci as u8);
+		let obs = match &r {
+			Ok(n) => n.to_string(),
+			Err(e) => format!("err:{}", err_kind(e)),
+		};
+		self.t.op(&if ci == 0 { "c10 count".to_string() } else { format!("c10 count {}", ci) }, &obs);
+		r.map_err(|e| format!("{:?}", e))
+	}
+	/// commit without oracle (model line only)
+	fn raw_commit(&mut self, tx: &[TxOp]) -> Result<(), parity_db::Error> {
+		let paths: Vec<HashMap<usize, (Vec<u8>, Vec<usize>)>> = self.forests.iter().map(|f| f.paths()).collect();
+		let parts: Vec<String> = tx.iter().map(|o| self.model_op(o, &paths)).collect();
+		let real: Vec<(u8, Operation<Vec<u8>, Vec<u8>>)> = tx.iter().map(|o| self.real_op(o)).collect();
+		let r = self.sut.db().commit_changes(real);
+		self.t.op(&format!("c10 tx {}", parts.join(" ; ")), &res(&r));
+		if r.is_ok() {
+			self.sut.queued += 1;
+			self.pending_dead.push_back(vec![]);
+		}
+		r
+	}
+	fn first_col(&self, want: &[Variant]) -> Option<usize> {
+		self.tree_cols().into_iter().find(|c| want.contains(&self.variant(*c)))
+	}
+}
+
+fn scenarios(c: &mut Case, seed: u64, rng: &mut Rng) {
+	let sel = seed % 8;
+	let key = vec![0xee, 0x01];
+	let key2 = vec![0xee, 0x02];
+	match sel {
+		0 => {
+			// a transaction that inserts a tree and then fails on a later operation must be rejected
+			// as a whole: no root readable, no slot claimed
+			if let Some(ci) = c.first_col(&[Variant::Plain]) {
+				c.ctr.inc("scenario.rejected_tx_after_insert");
+				let g = small_tree(&mut c.vals, 1, 2);
+				let tx = vec![TxOp::Insert { ci, key: key.clone(), g, mf: 2 }, TxOp::Ref { ci, key: key.clone() }];
+				if c.commit_tx(&tx, true) {
+					c.fail("scenario: transaction [InsertTree k, ReferenceTree k] accepted on a column without ref_counted");
+				}
+			}
+		},
+		1 | 7 => {
+			// FINDING F41: [DereferenceTree k, InsertTree k] - "replace the tree under k" in one
+			// transaction.  Read in order this is legal (k has no live root when it is inserted) and
+			// must leave k -> the new tree.  The implementation plans the root Set before the
+			// dereference: plain column: the dereference then removes the NEW root (the old nodes are
+			// freed, the new ones leak); ref-counted column: the Set only raises the count of the OLD
+			// root, the dereference lowers it again (the new nodes leak, the old tree stays).
+			let want = if sel == 1 { [Variant::Plain, Variant::Rc] } else { [Variant::Rc, Variant::Plain] };
+			let ci = match c.first_col(&want[..1]).or_else(|| c.first_col(&want[1..])) {
+				Some(ci) => ci,
+				None => return,
+			};
+			c.ctr.inc("scenario.deref_insert_same_key");
+			let g1 = small_tree(&mut c.vals, 2, 2);
+			if !c.commit_tx(&[TxOp::Insert { ci, key: key.clone(), g: g1.clone(), mf: 2 }], false) {
+				return
+			}
+			c.drain_traced();
+			let g2 = small_tree(&mut c.vals, 3, 1);
+			let tx = vec![TxOp::Deref { ci, key: key.clone() }, TxOp::Insert { ci, key: key.clone(), g: g2.clone(), mf: 1 }];
+			let r = c.raw_commit(&tx);
+			if r.is_err() {
+				c.fail(&format!("scenario: [DereferenceTree k, InsertTree k] on a live root rejected: {:?}", r));
+				return
+			}
+			// the property's reading: old tree gone, new tree under k, 1 root + 1 node
+			let mut expect = Forest::default();
+			expect.insert(&key, &g2, true);
+			let exp = expect.render(&key);
+			let queued_view = c.obs_tree(ci, &key);
+			if queued_view != exp {
+				c.fail(&format!("scenario: after [DereferenceTree k, InsertTree k] the tree reads {} before processing, expected {}", clip(&queued_view), exp));
+			}
+			c.drain_traced();
+			let obs = c.obs_tree(ci, &key);
+			let count = c.obs_count(ci);
+			if obs == exp && count == Ok(2) {
+				c.ctr.inc("scenario.deref_insert_same_key.in_order");
+			} else {
+				let declare = if c.prop == "C10" { Trace::known } else { known_as_comment };
+				declare(
+					c.t,
+					"C10",
+					"F41",
+					&format!(
+						"DEREF-INSERT-SAME-KEY: transaction [DereferenceTree k, InsertTree k t'] on a live root ({} column): accepted, k reads as t' while queued, after processing k reads {} and the column holds {:?} entries (in order: k -> t', 2 entries)",
+						c.variant(ci).name(),
+						clip(&obs),
+						count
+					),
+				);
+				c.ctr.inc("scenario.deref_insert_same_key.F41");
+			}
+		},
+		2 => {
+			// admissible: [DereferenceTree k, ReferenceTree k] on a root with count 1 keeps the tree
+			// (the references of a transaction are counted before its dereferences)
+			if let Some(ci) = c.first_col(&[Variant::Rc]) {
+				c.ctr.inc("scenario.deref_ref_same_key");
+				let g = small_tree(&mut c.vals, 4, 2);
+				if !c.commit_tx(&[TxOp::Insert { ci, key: key.clone(), g, mf: 2 }], false) {
+					return
+				}
+				if rng.chance(1, 2) {
+					c.drain_traced();
+				}
+				c.commit_tx(&[TxOp::Deref { ci, key: key.clone() }, TxOp::Ref { ci, key: key.clone() }], false);
+				c.drain_traced();
+				c.check_tree(ci, &key);
+				c.check_count(ci);
+				c.check_rc_dump("scenario");
+				c.commit_tx(&[TxOp::Deref { ci, key: key.clone() }], false);
+				c.drain_traced();
+				c.check_tree(ci, &key);
+				c.check_count(ci);
+			}
+		},
+		3 | 4 => {
+			// OUTSIDE the property's quantifier (live root keys are distinct), accepted by the Db:
+			// InsertTree under a key whose root is live (3) / twice under one key in one transaction
+			// (4).  plain: the last root replaces the other, whose new nodes leak; ref-counted: the
+			// first root stays with count 2, the nodes of the second leak.  Model agreement only.
+			let ci = match c.first_col(&[Variant::Plain, Variant::Rc]) {
+				Some(ci) => ci,
+				None => return,
+			};
+			c.ctr.inc(if sel == 3 { "scenario.insert_live_key" } else { "scenario.insert_twice_one_tx" });
+			let g1 = small_tree(&mut c.vals, 5, 2);
+			let g2 = small_tree(&mut c.vals, 6, 1);
+			c.t.comment("scenario outside the quantifier of C10: two InsertTrees under one root key (no oracle judgement)");
+			if sel == 3 {
+				if c.raw_commit(&[TxOp::Insert { ci, key: key.clone(), g: g1, mf: 2 }]).is_err() {
+					return
+				}
+				if rng.chance(1, 2) {
+					c.drain_traced();
+				}
+				let _ = c.raw_commit(&[TxOp::Insert { ci, key: key.clone(), g: g2, mf: 1 }]);
+			} else {
+				let _ = c.raw_commit(&[TxOp::Insert { ci, key: key.clone(), g: g1, mf: 2 }, TxOp::Insert { ci, key: key.clone(), g: g2, mf: 1 }]);
+			}
+			c.obs_tree(ci, &key);
+			c.drain_traced();
+			c.obs_tree(ci, &key);
+			let _ = c.obs_count(ci);
+			for _ in 0..2 {
+				let r = c.raw_commit(&[TxOp::Deref { ci, key: key.clone() }]);
+				c.drain_traced();
+				c.obs_tree(ci, &key);
+				let n = c.obs_count(ci);
+				if r.is_err() {
+					c.t.comment(&format!("after the last DereferenceTree the column holds {:?} entries (leaked nodes)", n));
+					break
+				}
+			}
+		},
+		5 => {
+			// OUTSIDE the quantifier (children name nodes of live trees), accepted by the Db: an
+			// `Existing` child whose address is a freed slot.  The tree is stored with a dangling
+			// child and a reference count of 2 is recorded for the free slot.  Model agreement only.
+			let ci = match c.first_col(&[Variant::Plain, Variant::Rc]) {
+				Some(ci) => ci,
+				None => return,
+			};
+			c.ctr.inc("scenario.dangling_existing");
+			let g1 = small_tree(&mut c.vals, 7, 1);
+			if !c.commit_tx(&[TxOp::Insert { ci, key: key.clone(), g: g1, mf: 1 }], false) {
+				return
+			}
+			c.drain_traced();
+			let addr = match c.sut.db().get_root(ci as u8, &key) {
+				Ok(Some((_, ch))) if ch.len() == 1 => ch[0],
+				_ => return,
+			};
+			c.commit_tx(&[TxOp::Deref { ci, key: key.clone() }], false);
+			c.drain_traced();
+			c.t.comment("scenario outside the quantifier of C10: Existing child at a freed address (no oracle judgement)");
+			let data = c.vals.canon("v7_22".into());
+			let real = NewNode { data: c.vals.bytes(&data), children: vec![NodeRef::Existing(addr)] };
+			let r = c.sut.db().commit_changes(vec![(ci as u8, Operation::InsertTree(key2.clone(), real))]);
+			c.t.op(&format!("c10 tx {} insert {} n1:{} #4000000000", ci, hex(&key2), data), &res(&r));
+			if r.is_ok() {
+				c.sut.queued += 1;
+				c.pending_dead.push_back(vec![]);
+			}
+			c.obs_tree(ci, &key2);
+			c.drain_traced();
+			c.obs_tree(ci, &key2);
+			let _ = c.obs_count(ci);
+			let _ = c.raw_commit(&[TxOp::Deref { ci, key: key2.clone() }]);
+			c.drain_traced();
+			c.obs_tree(ci, &key2);
+			let _ = c.obs_count(ci);
+		},
+		_ => {
+			// a stored background error refuses every commit, without trace (C08 / F23)
+			let ci = c.tree_cols()[0];
+			c.ctr.inc("scenario.background_error");
+			let before = c.obs_count(ci);
+			c.sut.db().verif_store_err(Err(parity_db::Error::Io(std::io::Error::new(std::io::ErrorKind::Other, "injected by the c10 harness"))));
+			c.t.op("c10 bgerr", "ok");
+			let g = small_tree(&mut c.vals, 8, 3);
+			let r = c.raw_commit(&[TxOp::Insert { ci, key: key.clone(), g, mf: 3 }]);
+			match &r {
+				Err(e) if err_kind(e) == "Background" => {},
+				other => c.fail(&format!("commit after a stored background error returned {:?}", other.as_ref().map_err(err_kind))),
+			}
+			let after = c.obs_count(ci);
+			if before != after {
+				c.fail(&format!("commit refused because of a background error changed the entry count {:?} -> {:?}", before, after));
+			}
+			let obs = c.obs_tree(ci, &key);
+			if obs != "none" {
+				c.fail("commit refused because of a background error left a readable root");
+			}
+		},
+	}
+}
+
+// ------------------------------------------------------------------------------------------
+// Deep trees (finding F42).  `write_dereference_children_plan` (the log worker), `validate_node` and
+// `claim_node` (the committing thread) recurse on the Rust stack, one frame per tree level.  A
+// chain of nodes with one child each is built by SHALLOW transactions (InsertTree of a root with
+// one new node whose only child is `Existing(previous top)`, DereferenceTree of the previous
+// root), then the top is dereferenced: the walk recurses to the depth of the chain.  The log
+// worker of a production Db is a `std::thread::spawn` thread (2 MiB of stack): a chain of about
+// 11 000 nodes overflows it and the process aborts (SIGABRT); after a restart the tree is still
+// there and every new attempt to dereference it kills the process again.  The experiment runs in
+// a child process (`PDB_C10_DEEP_CHILD=<depth>:<dir>`).
+
+fn deep_child(spec: &str) -> u64 {
+	let mut it = spec.splitn(2, ':');
+	let n: usize = it.next().unwrap().parse().unwrap();
+	let dir = PathBuf::from(it.next().unwrap());
+	let cfg = Cfg { cols: vec![ColKind::Tree(Variant::Plain)], compression: CompressionType::NoCompression, threshold: None, rcbits: 0 };
+	let db = Db::open_or_create(&options(&cfg, &dir, [7u8; 32])).expect("create");
+	let key = |i: usize| format!("k{}", i).into_bytes();
+	let drain = |db: &Db| {
+		db.flush_logs().unwrap();
+		for _ in 0..4 {
+			db.enact_logs().unwrap();
+			db.clean_logs().unwrap();
+		}
+	};
+	let leaf = NewNode { data: b"n0".to_vec(), children: vec![] };
+	db.commit_changes(vec![(0u8, Operation::InsertTree(key(0), NewNode { data: b"r".to_vec(), children: vec![NodeRef::New(leaf)] }))]).unwrap();
+	db.process_commits().unwrap();
+	let mut top = db.get_root(0, &key(0)).unwrap().unwrap().1[0];
+	for i in 1..=n {
+		let node = NewNode { data: b"n".to_vec(), children: vec![NodeRef::Existing(top)] };
+		db.commit_changes(vec![
+			(0u8, Operation::InsertTree(key(i), NewNode { data: b"r".to_vec(), children: vec![NodeRef::New(node)] })),
+			(0u8, Operation::DereferenceTree(key(i - 1))),
+		])
+		.unwrap();
+		db.process_commits().unwrap();
+		top = db.get_root(0, &key(i)).unwrap().unwrap().1[0];
+		if i % 200 == 0 {
+			drain(&db);
+		}
+	}
+	drain(&db);
+	println!("deep-built depth={} entries={:?}", n, db.get_num_column_value_entries(0));
+	db.commit_changes(vec![(0u8, Operation::DereferenceTree(key(n)))]).unwrap();
+	// as the log worker of a production Db: a thread with the default 2 MiB stack
+	let r = std::thread::scope(|s| {
+		std::thread::Builder::new().stack_size(2 << 20).spawn_scoped(s, || db.process_commits()).unwrap().join()
+	});
+	drain(&db);
+	println!("deep-done process={:?} entries={:?}", r.map(|x| x.is_ok()).unwrap_or(false), db.get_num_column_value_entries(0));
+	drop(db);
+	0
+}
+
+/// Run the deep-chain experiment for `depth` in a child process; (built, finished with zero entries, stack overflow seen)
+fn deep_parent(root: &Path, depth: usize, tag: u64) -> (bool, bool, bool, String) {
+	let dir = fresh_dir(root, &format!("c10-deep-{}-{}", tag, depth));
+	let exe = match std::env::current_exe() {
+		Ok(e) => e,
+		Err(_) => return (false, false, false, "no current_exe".into()),
+	};
+	let out = std::process::Command::new(exe)
+		.args(["c10", "--prop", "C10", "--cases", "0"])
+		.env("PDB_C10_DEEP_CHILD", format!("{}:{}", depth, dir.display()))
+		.output();
+	let _ = std::fs::remove_dir_all(&dir);
+	match out {
+		Err(e) => (false, false, false, format!("spawn failed: {:?}", e)),
+		Ok(o) => {
+			let so = String::from_utf8_lossy(&o.stdout).to_string();
+			let se = String::from_utf8_lossy(&o.stderr).to_string();
+			let built = so.contains("deep-built");
+			let done = so.contains("deep-done process=true entries=Ok(0)");
+			let overflow = se.contains("overflowed its stack") || se.contains("stack overflow");
+			(built, done, overflow, format!("status={:?} stdout={:?} stderr={:?}", o.status, clip(&so), clip(&se)))
+		},
+	}
+}
+
+fn deep_scenario(seed: u64, root: &Path, t: &mut Trace, ctr: &mut Counters, prop: &str) -> bool {
+	let mut ok = true;
+	// a moderately deep tree must simply work
+	let shallow = 1500 + (seed % 1500) as usize;
+	let (built, done, overflow, info) = deep_parent(root, shallow, seed);
+	t.comment(&format!("deep chain depth={} -> built={} done={} overflow={}", shallow, built, done, overflow));
+	if !(built && done) {
+		t.oracle_fail(prop, &format!("a chain of {} nodes could not be built and dereferenced: {}", shallow, info));
+		ok = false;
+	} else {
+		ctr.inc("deep.shallow_ok");
+	}
+	let depth = 13000 + (seed % 7000) as usize;
+	let (built, done, overflow, info) = deep_parent(root, depth, seed);
+	t.comment(&format!("deep chain depth={} -> built={} done={} overflow={}", depth, built, done, overflow));
+	if built && done {
+		ctr.inc("deep.deep_ok");
+	} else if built && overflow {
+		ctr.inc("deep.F42");
+		let declare = if prop == "C10" { Trace::known } else { known_as_comment };
+		declare(
+			t,
+			"C10",
+			"F42",
+			&format!(
+				"DEEP-TREE-STACK-OVERFLOW: DereferenceTree of a tree of depth {} (a chain built by shallow transactions) overflows the 2 MiB stack of the log worker thread in write_dereference_children_plan and aborts the process",
+				depth
+			),
+		);
+	} else {
+		t.oracle_fail(prop, &format!("deep chain experiment (depth {}) ended unexpectedly: {}", depth, info));
+		ok = false;
+	}
+	ok
+}
+
 pub fn run(seeds: &[u64], thorough: bool, root: &Path, t: &mut Trace, ctr: &mut Counters, prop: &str) -> u64 {
+	if let Ok(spec) = std::env::var("PDB_C10_DEEP_CHILD") {
+		return deep_child(&spec)
+	}
 	let mut fails = 0;
 	for s in seeds {
 		let r = std::panic::catch_unwind(std::panic::AssertUnwindSafe(|| run_case(*s, thorough, root, t, ctr, prop)));
@@ -1533,6 +2510,7 @@ pub fn run(seeds: &[u64], thorough: bool, root: &Path, t: &mut Trace, ctr: &mut 
 			},
 			Err(_) => {
 				fails += 1;
+				parity_db::verif::set_min_ref_count_bits(0);
 				t.oracle_fail(prop, &format!("panic while running case seed={}", s));
 				t.end_case(true);
 			},
